@@ -47,7 +47,26 @@ CLAIM = {
             'dimension (negative witness chordal_angles_disagree_when_dims_differ). Four defects fixed in the '
             'worktree (whitening with repeated eigenvalues; get_principal_component_matrix integer dtype and wide '
             'matrices; least_right_singular_vectors on wide matrices): the model mirrors the repaired code, so '
-            'the check alarms on a tree without those commits.',
+            'the check alarms on a tree without those commits. ROBUSTNESS CLASSES: R1 element types (float32 / '
+            'complex64 / int8..int64 / uint8 arrays; Python and numpy scalars of every width for the conversions), '
+            'R2 layouts and shapes (Fortran, transposed, reversed and strided views, broadcast views, 0-d, size-0, '
+            '(N,1)/(1,N)/3-D for the conversions, 1-D and column-less M for project/reflect), R3 (arguments '
+            'untouched, results fresh and never changed by later calls, no aliasing), R4 (rejected peig/leig/'
+            'update_inv_sum_diag/get_principal_component_matrix calls leave arguments and later results '
+            'unchanged), R5 (1x1, square and empty bases, n = 0 / ncols, zero and empty diagonals, identical and '
+            'orthogonal subspaces, 0 dB / 1 bit, sizes 9..17), R6 (inputs scaled by 1e-15..1e15, every comparison '
+            'relative) and R7 (Projection objects used repeatedly in any order, sharing one array) are each '
+            'exercised in the correspondence AND by first-principles oracles, with their own required branches and '
+            'failure classes. By THEOREM: every theorem is about the exact model, i.e. a function of the logical '
+            'values only (so independent of dtype and layout, R1/R2) and universally quantified over sizes and '
+            'scalars (R5/R6: n = 0, k = m, k = 0, every positive eigenvalue however small); in addition '
+            'proj_scale_invariant / chordal2_scale_invariant (R6), proj_of_square_invertible / proj_of_empty_basis '
+            '(R5), eig_selectors_reject / update_inv_sum_diag_index_error (R4: rejection is a pure error value). '
+            'R3, R7 and the dtype/layout behaviour of numpy itself are covered by correspondence/oracle only (the '
+            'model has no mutable state). Two further defects found by R1 and fixed: update_inv_sum_diag with an '
+            'integer-dtype inverse or a real inverse and complex diagonal (UFuncTypeError), float16/float32 '
+            'logarithms for narrow numpy integers in the dB conversions. Not accepted by the API and therefore not '
+            'exercised: float16 matrices (numpy.linalg rejects them), Python lists for the matrix routines.',
 }
 
 EPS = 2.220446049250313e-16
@@ -240,17 +259,175 @@ HPD_KINDS = ['wishart', 'rank1', 'spectrum', 'wishart', 'diag', 'ident']
 
 
 def cond2(a):
-    return float(np.linalg.cond(a))
+    a = np.asarray(a)
+    if a.size == 0:
+        return 1.0
+    return float(np.linalg.cond(twin(a)))
 
 
 def abs3(a, g, b):
-    return np.abs(a) @ np.abs(g) @ np.abs(b)
+    return np.abs(twin(a)) @ np.abs(twin(g)) @ np.abs(twin(b))
+
+
+# ------------------------------------------------ input variants (R1, R2, R6)
+class Violation(Exception):
+    """raised by the guards below: (class, detail)"""
+
+    def __init__(self, cls, detail):
+        Exception.__init__(self, cls, detail)
+        self.cls, self.detail = cls, detail
+
+
+INT_DTYPES = ['int8', 'int16', 'int32', 'int64', 'uint8']
+LAYOUTS = ['F', 'rev', 'strided', 'T']
+
+
+def relayout(x, layout):
+    """a view with the same values and a different memory layout"""
+    if layout is None or x.ndim == 0:
+        return x
+    if layout == 'F':
+        return np.asfortranarray(x)
+    if layout == 'T':                      # transpose of a C-contiguous array
+        return np.ascontiguousarray(x.T).T
+    if layout == 'rev':                    # negative strides on every axis
+        idx = tuple(slice(None, None, -1) for _ in range(x.ndim))
+        return x[idx].copy()[idx]
+    if layout == 'strided':                # every 2nd / 3rd element of a larger buffer
+        big = np.zeros(tuple(3 * s for s in x.shape), dtype=x.dtype)
+        idx = tuple(slice(1, None, 3) for _ in range(x.ndim))
+        big[idx] = x
+        return big[idx]
+    raise ValueError(layout)
+
+
+def realize(d, var):
+    """the array actually handed to the code: base values * scale, cast, re-laid out"""
+    x = dec(d)
+    var = var or {}
+    if var.get('scale') is not None:
+        x = x * float(var['scale'])
+    dt = var.get('dtype')
+    if dt == 'f32':
+        x = x.astype(np.complex64 if np.iscomplexobj(x) else np.float32)
+    elif dt in INT_DTYPES:
+        if np.iscomplexobj(x):
+            x = x.real
+        x = np.rint(x)
+        if dt == 'uint8':
+            x = np.abs(x)
+        x = x.astype(dt)
+    elif dt is not None:
+        raise ValueError(dt)
+    return relayout(x, var.get('layout'))
+
+
+def twin(x):
+    """the float64 / complex128 C-contiguous array with the same values"""
+    x = np.asarray(x)
+    return np.array(x, dtype=complex if np.iscomplexobj(x) else float, order='C', copy=True)
+
+
+def eps_of(*arrs):
+    e = EPS
+    for x in arrs:
+        dt = np.asarray(x).dtype
+        if dt.kind in 'fc':
+            e = max(e, float(np.finfo(dt).eps))
+    return e
+
+
+def vtag(var):
+    """failure-class suffix computed from the input variant"""
+    if not var:
+        return ''
+    parts = []
+    if var.get('dtype'):
+        parts.append('dtype:' + ('float32/complex64' if var['dtype'] == 'f32' else 'integer'))
+    if var.get('layout'):
+        parts.append('layout:' + var['layout'])
+    if var.get('scale') is not None:
+        parts.append('scale:' + ('tiny' if var['scale'] < 1 else 'huge'))
+    return '@' + ','.join(parts)
+
+
+def vbranches(var):
+    out = []
+    var = var or {}
+    if var.get('dtype') == 'f32':
+        out.append('R1:float32/complex64')
+    elif var.get('dtype'):
+        out.append('R1:integer-dtype')
+    if var.get('layout'):
+        out.append('R2:layout-' + var['layout'])
+    if var.get('scale') is not None:
+        out.append('R6:scale-' + ('tiny' if var['scale'] < 1 else 'huge'))
+    return out
+
+
+def same(a, b):
+    a, b = np.asarray(a), np.asarray(b)
+    return a.shape == b.shape and a.dtype == b.dtype and bool(np.array_equal(a, b, equal_nan=a.dtype.kind in 'fc'))
+
+
+def call(name, fn, *args):
+    """R3 guard: arguments are left untouched and the results do not alias them"""
+    snaps = [(a, np.array(a, copy=True)) for a in args if isinstance(a, np.ndarray)]
+    out = fn(*args)
+    for a, s in snaps:
+        if not same(a, s):
+            raise Violation('R3:input-modified:' + name, 'an argument of %s changed during the call' % name)
+    outs = out if isinstance(out, tuple) else (out,)
+    for o in outs:
+        if isinstance(o, np.ndarray) and o.size:
+            for a, _ in snaps:
+                if a.size and np.shares_memory(o, a):
+                    raise Violation('R3:output-aliases-input:' + name, 'a result of %s shares memory with an argument' % name)
+    return out
+
+
+def inexact_result(name, out, *inputs):
+    """R1: a result must not be stored in an integer buffer, nor lose the complex part"""
+    out = np.asarray(out)
+    if out.dtype.kind not in 'fc':
+        raise Violation('R1:integer-result-dtype:' + name, '%s returned dtype %s' % (name, out.dtype))
+    if any(np.iscomplexobj(x) for x in inputs) and out.dtype.kind != 'c':
+        raise Violation('R1:real-result-for-complex-input:' + name, '%s returned dtype %s' % (name, out.dtype))
+
+
+def nz(x):
+    x = float(x)
+    return x if x > 0 else 1.0
+
+
+def rt(base, *arrs):
+    """comparison tolerance: `base` for double precision data, 5e-4 when a float32/complex64 array is involved"""
+    return base if eps_of(*arrs) <= EPS else max(base, 5e-4)
+
+
+def corr_variants(ctx, g, n):
+    """(var, complex?) for the variant part of a correspondence stream; counts the corr-R* branches"""
+    out = []
+    for t in range(n):
+        var = pick_var(g.rng, t)
+        for br in vbranches(var):
+            ctx.branch('corr-' + br)
+        out.append((var, (t // 10) % 2 == 0, t))
+    return out
+
+
+def tol_for(c2, m, factor, *arrs):
+    e = eps_of(*arrs)
+    return max(1e-9 if e <= EPS else 100 * e, factor * e * c2 * max(m, 1))
 
 
 # ------------------------------------------------------------------ oracles
 # each takes a JSON-serialisable case and returns None (holds) or (class, detail)
 def ref_projector(a):
     """orthogonal projector onto range(a) from an SVD basis (independent of the formula under test)"""
+    a = twin(a)
+    if a.shape[1] == 0:
+        return np.zeros((a.shape[0], a.shape[0]))
     u, s, _ = np.linalg.svd(a, full_matrices=False)
     r = int(np.sum(s > s[0] * 1e-13)) if s.size else 0
     u = u[:, :r]
@@ -259,58 +436,87 @@ def ref_projector(a):
 
 def o_projection(case):
     proj, _, _, _ = _impl()
-    a = dec(case['A'])
-    mm = dec(case['M'])
+    var = case.get('var')
+    a = realize(case['A'], var)
+    mm = realize(case['M'], dict(var or {}, scale=None) if var else None)
+    a64, m64 = twin(a), twin(mm)
     m = a.shape[0]
     c2 = cond2(a) ** 2
-    tol = max(1e-9, 200 * EPS * c2 * m)
-    p = proj.calcProjectionMatrix(a)
-    op = proj.calcOrthogonalProjectionMatrix(a)
+    tol = tol_for(c2, m, 200, a, mm)
+    p = call('calcProjectionMatrix', proj.calcProjectionMatrix, a)
+    op = call('calcOrthogonalProjectionMatrix', proj.calcOrthogonalProjectionMatrix, a)
     obj = proj.Projection(a)
+    inexact_result('calcProjectionMatrix', p, a)
+    inexact_result('calcOrthogonalProjectionMatrix', op, a)
     eye = np.eye(m)
-    cls_sfx = ':cond>1e4' if c2 > 1e8 else ''
+    sa, sm = nz(np.abs(a64).max() if a64.size else 0), nz(np.abs(m64).max() if m64.size else 0)
+    ref = ref_projector(a)
+    pm = call('Projection.project', obj.project, mm)
+    om = call('Projection.oProject', obj.oProject, mm)
+    rm = call('Projection.reflect', obj.reflect, mm)
+    rr = call('Projection.reflect', obj.reflect, rm)
+    cls_sfx = (':cond>1e4' if c2 > 1e8 else '') + vtag(var)
+    if p.shape != (m, m) or op.shape != (m, m) or pm.shape != mm.shape:
+        return 'shape' + cls_sfx, 'P %s oP %s project %s' % (p.shape, op.shape, pm.shape)
     checks = [
         ('not-hermitian', np.abs(p - H(p)).max()),
         ('not-idempotent', np.abs(p @ p - p).max()),
-        ('does-not-fix-A', np.abs(p @ a - a).max() / max(1.0, np.abs(a).max())),
-        ('not-the-column-space-projector', np.abs(p - ref_projector(a)).max()),
+        ('does-not-fix-A', (np.abs(p @ a64 - a64).max() if a64.size else 0.0) / sa),
+        ('not-the-column-space-projector', np.abs(p - ref).max()),
         ('not-complementary', np.abs(p + op - eye).max()),
-        ('oproj-not-annihilating-A', np.abs(op @ a).max() / max(1.0, np.abs(a).max())),
+        ('oproj-not-annihilating-A', (np.abs(op @ a64).max() if a64.size else 0.0) / sa),
         ('oproj-not-idempotent', np.abs(op @ op - op).max()),
-        ('project-method', np.abs(obj.project(mm) - ref_projector(a) @ mm).max() / max(1.0, np.abs(mm).max())),
-        ('oproject-method', np.abs(obj.project(mm) + obj.oProject(mm) - mm).max() / max(1.0, np.abs(mm).max())),
-        ('reflect-not-involutive', np.abs(obj.reflect(obj.reflect(mm)) - mm).max() / max(1.0, np.abs(mm).max())),
-        ('reflect-wrong', np.abs(obj.reflect(mm) - (mm - 2 * ref_projector(a) @ mm)).max()
-         / max(1.0, np.abs(mm).max())),
+        ('project-method', (np.abs(pm - ref @ m64).max() if m64.size else 0.0) / sm),
+        ('oproject-method', (np.abs(pm + om - m64).max() if m64.size else 0.0) / sm),
+        ('reflect-not-involutive', (np.abs(rr - m64).max() if m64.size else 0.0) / sm),
+        ('reflect-wrong', (np.abs(rm - (m64 - 2 * ref @ m64)).max() if m64.size else 0.0) / sm),
     ]
     for name, err in checks:
         if not (err <= tol):
             return name + cls_sfx, 'error %.3e > %.3e (cond(A)=%.2e)' % (err, tol, math.sqrt(c2))
+    if not (same(obj.Q, p) and same(obj.oQ, op)):
+        return 'R7:object-differs-from-static' + vtag(var), 'Projection(A).Q / .oQ differ from the static results'
+    if var and var.get('layout'):
+        # R2: positionally equal to the result for the C-contiguous copy
+        p2 = proj.calcProjectionMatrix(np.ascontiguousarray(a))
+        if not np.abs(p2 - p).max() <= tol:
+            return 'R2:layout-changes-result' + vtag(var), 'max difference %.3e' % np.abs(p2 - p).max()
     return None
 
 
 def o_projection_invariance(case):
     proj, _, _, _ = _impl()
-    a = dec(case['A'])
+    var = case.get('var')
+    a = realize(case['A'], var)
     t = dec(case['T'])
     u = dec(case['U'])
+    a64 = twin(a)
     m = a.shape[0]
-    c2 = max(cond2(a), cond2(a @ t)) ** 2
-    tol = max(1e-9, 200 * EPS * c2 * m)
+    c2 = max(cond2(a), cond2(a64 @ t)) ** 2
+    tol = tol_for(c2, m, 200, a)
     p = proj.calcProjectionMatrix(a)
-    pb = proj.calcProjectionMatrix(a @ t)
-    pu = proj.calcProjectionMatrix(u @ a)
+    pb = proj.calcProjectionMatrix(a64 @ t)
+    pu = proj.calcProjectionMatrix(u @ a64)
     e1 = np.abs(pb - p).max()
     if not e1 <= tol:
-        return 'basis-change-changes-projector', 'error %.3e > %.3e' % (e1, tol)
+        return 'basis-change-changes-projector' + vtag(var), 'error %.3e > %.3e' % (e1, tol)
     e2 = np.abs(pu - u @ p @ H(u)).max()
     if not e2 <= tol:
-        return 'not-unitary-covariant', 'error %.3e > %.3e' % (e2, tol)
+        return 'not-unitary-covariant' + vtag(var), 'error %.3e > %.3e' % (e2, tol)
+    if var and var.get('scale') is not None:
+        # R6: the projector does not depend on the scale of the basis
+        p1 = proj.calcProjectionMatrix(twin(realize(case['A'], dict(var, scale=None))))
+        e3 = np.abs(p1 - p).max()
+        if not e3 <= tol:
+            return 'R6:scale-changes-projector' + vtag(var), 'error %.3e > %.3e' % (e3, tol)
     return None
 
 
 def ref_chordal_sq(a, b):
     """(p+q)/2 - sum cos^2 of the principal angles, from SVD bases"""
+    a, b = twin(a), twin(b)
+    if a.shape[1] == 0 or b.shape[1] == 0:
+        return (a.shape[1] + b.shape[1]) / 2.0
     ua = np.linalg.svd(a, full_matrices=False)[0]
     ub = np.linalg.svd(b, full_matrices=False)[0]
     p, q = ua.shape[1], ub.shape[1]
@@ -320,38 +526,42 @@ def ref_chordal_sq(a, b):
 
 def three_distances(a, b):
     _, met, _, _ = _impl()
-    d1 = float(met.calc_chordal_distance(a, b))
-    d2 = float(met.calc_chordal_distance_2(a, b))
-    d3 = float(met.calc_chordal_distance_from_principal_angles(met.calc_principal_angles(a, b)))
+    d1 = float(call('calc_chordal_distance', met.calc_chordal_distance, a, b))
+    d2 = float(call('calc_chordal_distance_2', met.calc_chordal_distance_2, a, b))
+    ang = call('calc_principal_angles', met.calc_principal_angles, a, b)
+    d3 = float(call('calc_chordal_distance_from_principal_angles', met.calc_chordal_distance_from_principal_angles, ang))
     return d1, d2, d3
 
 
 def o_chordal(case):
-    _, met, _, _ = _impl()
-    a = dec(case['A'])
-    b = dec(case['B'])
+    var = case.get('var')
+    a = realize(case['A'], var)
+    vb = dict(var, scale=case['scaleB']) if (var and 'scaleB' in case) else var
+    b = realize(case['B'], vb)
     p, q = a.shape[1], b.shape[1]
     c2 = max(cond2(a), cond2(b)) ** 2
-    tol = max(1e-9, 400 * EPS * c2 * a.shape[0])
+    tol = tol_for(c2, a.shape[0], 400, a, b)
     d1, d2, d3 = three_distances(a, b)
     ref = ref_chordal_sq(a, b)
+    sfx = vtag(var)
     if not abs(d1 * d1 - ref) <= tol:
-        return 'chordal-wrong', 'calc_chordal_distance^2=%r reference=%r' % (d1 * d1, ref)
+        return 'chordal-wrong' + sfx, 'calc_chordal_distance^2=%r reference=%r' % (d1 * d1, ref)
     if not abs(d2 * d2 - ref) <= tol:
-        return 'chordal2-wrong', 'calc_chordal_distance_2^2=%r reference=%r' % (d2 * d2, ref)
+        return 'chordal2-wrong' + sfx, 'calc_chordal_distance_2^2=%r reference=%r' % (d2 * d2, ref)
     if not abs(d3 * d3 - d1 * d1) <= tol:
         cls = 'disagree:dims-equal' if p == q else 'disagree:dims-differ'
-        return cls, 'principal-angle form %r, projector forms %r / %r (p=%d q=%d)' % (d3, d1, d2, p, q)
+        return cls + (sfx if p == q else ''), 'principal-angle form %r, projector forms %r / %r (p=%d q=%d)' % (d3, d1, d2, p, q)
     e1, e2, e3 = three_distances(b, a)
     for x, y, nm in ((d1, e1, 'chordal'), (d2, e2, 'chordal2'), (d3, e3, 'angles')):
         if not abs(x * x - y * y) <= tol:
-            return 'not-symmetric:' + nm, 'd(A,B)=%r d(B,A)=%r' % (x, y)
+            return 'not-symmetric:' + nm + sfx, 'd(A,B)=%r d(B,A)=%r' % (x, y)
     return None
 
 
 def o_chordal_invariance(case):
-    a = dec(case['A'])
-    b = dec(case['B'])
+    var = case.get('var')
+    a = twin(realize(case['A'], var))
+    b = twin(realize(case['B'], var))
     ta = dec(case['TA'])
     tb = dec(case['TB'])
     u = dec(case['U'])
@@ -360,51 +570,55 @@ def o_chordal_invariance(case):
     base = three_distances(a, b)
     z = three_distances(a, a @ ta)
     names = ('chordal', 'chordal2', 'angles')
+    sfx = vtag(var)
     for d, nm in zip(z, names):
         if not d * d <= tol:
-            return 'nonzero-for-equal-span:' + nm, 'd(A, A T)=%r' % d
+            return 'nonzero-for-equal-span:' + nm + sfx, 'd(A, A T)=%r' % d
     nb = three_distances(a @ ta, b @ tb)
     for d, e, nm in zip(base, nb, names):
         if not abs(d * d - e * e) <= tol:
-            return 'not-basis-invariant:' + nm, 'd(A,B)=%r d(A T1,B T2)=%r' % (d, e)
+            return 'not-basis-invariant:' + nm + sfx, 'd(A,B)=%r d(A T1,B T2)=%r' % (d, e)
     nu = three_distances(u @ a, u @ b)
     for d, e, nm in zip(base, nu, names):
         if not abs(d * d - e * e) <= tol:
-            return 'not-unitary-invariant:' + nm, 'd(A,B)=%r d(UA,UB)=%r' % (d, e)
+            return 'not-unitary-invariant:' + nm + sfx, 'd(A,B)=%r d(UA,UB)=%r' % (d, e)
     return None
 
 
 def o_gmd(case):
     _, _, misc, _ = _impl()
-    a = dec(case['A'])
+    var = case.get('var')
+    a = twin(realize(case['A'], dict(var or {}, dtype=None, layout=None)))
     m, n = a.shape
     u, s, vh = np.linalg.svd(a)
-    u0, s0, vh0 = u.copy(), s.copy(), vh.copy()
-    q, r, p = misc.gmd(u, s, vh)
-    if not (np.array_equal(u, u0) and np.array_equal(s, s0) and np.array_equal(vh, vh0)):
-        return 'inputs-modified', 'gmd changed its arguments'
+    if var and var.get('dtype') == 'f32':
+        u, vh = u.astype(np.complex64 if np.iscomplexobj(u) else np.float32), vh.astype(np.complex64 if np.iscomplexobj(vh) else np.float32)
+    lay = (var or {}).get('layout')
+    u, vh = relayout(u, lay), relayout(vh, lay)
+    q, r, p = call('gmd', misc.gmd, u, s, vh)
     k = min(m, n)
-    scale = max(1.0, s[0])
-    tol = 1e-9 * max(1.0, (s[0] / s[-1]))
+    sfx = vtag(var)
+    e0 = eps_of(u, vh) / EPS
+    tol = 1e-9 * max(1.0, (s[0] / s[-1])) * e0
     if q.shape != (m, m) or r.shape != (m, n) or p.shape != (n, n):
-        return 'shape', 'shapes %s %s %s' % (q.shape, r.shape, p.shape)
-    e = np.abs(q @ r @ H(p) - a).max() / scale
+        return 'shape' + sfx, 'shapes %s %s %s' % (q.shape, r.shape, p.shape)
+    e = np.abs(twin(q) @ r @ H(twin(p)) - a).max() / nz(s[0])
     if not e <= tol:
-        return 'does-not-reconstruct', 'max |Q R P^H - A| / s1 = %.3e' % e
-    e = max(np.abs(H(q) @ q - np.eye(m)).max(), np.abs(H(p) @ p - np.eye(n)).max())
+        return 'does-not-reconstruct' + sfx, 'max |Q R P^H - A| / s1 = %.3e' % e
+    e = max(np.abs(H(twin(q)) @ twin(q) - np.eye(m)).max(), np.abs(H(twin(p)) @ twin(p) - np.eye(n)).max())
     if not e <= tol:
-        return 'factors-not-orthonormal', 'max deviation %.3e' % e
+        return 'factors-not-orthonormal' + sfx, 'max deviation %.3e' % e
     if np.any(np.tril(r, -1) != 0):
-        return 'R-not-upper-triangular', 'non-zero entry below the diagonal'
+        return 'R-not-upper-triangular' + sfx, 'non-zero entry below the diagonal'
     gm = math.exp(float(np.mean(np.log(s))))
     e = np.abs(np.diag(r)[:k] - gm).max() / gm
     if not e <= tol:
-        return 'diagonal-not-geometric-mean', 'diag(R)=%r geometric mean=%r' % (np.diag(r)[:k].tolist(), gm)
+        return 'diagonal-not-geometric-mean' + sfx, 'diag(R)=%r geometric mean=%r' % (np.diag(r)[:k].tolist(), gm)
     return None
 
 
 def eig_gap_class(c):
-    w = np.linalg.eigvalsh(c)
+    w = np.linalg.eigvalsh(twin(c))
     if w.size < 2:
         return 'distinct-eigenvalues'
     gap = np.min(np.diff(w)) / max(abs(w[-1]), 1e-300)
@@ -413,65 +627,85 @@ def eig_gap_class(c):
 
 def o_whitening(case):
     _, _, misc, _ = _impl()
-    c = dec(case['C'])
+    var = case.get('var')
+    c = realize(case['C'], var)
+    c64 = twin(c)
     n = c.shape[0]
-    w = misc.calc_whitening_matrix(c)
-    tol = max(1e-9, 200 * EPS * cond2(c) * n)
-    e = np.abs(H(w) @ c @ w - np.eye(n)).max()
+    w = call('calc_whitening_matrix', misc.calc_whitening_matrix, c)
+    inexact_result('calc_whitening_matrix', w)
+    tol = tol_for(cond2(c), n, 200, c)
+    w64 = twin(w)
+    e = np.abs(H(w64) @ c64 @ w64 - np.eye(n)).max() if n else 0.0
     if not e <= tol:
-        return 'not-identity:' + eig_gap_class(c), 'max |W^H C W - I| = %.3e' % e
+        return 'not-identity:' + eig_gap_class(c) + vtag(var), 'max |W^H C W - I| = %.3e (smallest eigenvalue %.3e)' % (
+            e, float(np.linalg.eigvalsh(c64)[0]))
     return None
 
 
 def o_update_inv(case):
     _, _, misc, _ = _impl()
-    a = dec(case['A'])
-    d = dec(case['d'])
+    var = case.get('var')
+    a = twin(realize(case['A'], dict(var or {}, dtype=None, layout=None)))
+    d = realize(case['d'], var)
     n = a.shape[0]
-    inv_a = np.linalg.inv(a)
-    inv0 = inv_a.copy()
-    out = misc.update_inv_sum_diag(inv_a, d)
-    if not np.array_equal(inv_a, inv0):
-        return 'input-modified', 'invA changed'
-    full = np.zeros(n, dtype=d.dtype)
-    full[:d.size] = d
+    inv_a = np.linalg.inv(a) if n else np.zeros((0, 0))
+    dt = (var or {}).get('dtype')
+    if dt == 'f32':
+        inv_a = inv_a.astype(np.complex64 if np.iscomplexobj(inv_a) else np.float32)
+    elif dt in INT_DTYPES:
+        # an integer-dtype inverse: A is (numerically) a signed permutation matrix times +-1
+        inv_a = np.rint(inv_a.real).astype(dt if dt != 'uint8' else 'int16')
+    inv_a = relayout(inv_a, (var or {}).get('layout'))
+    out = call('update_inv_sum_diag', misc.update_inv_sum_diag, inv_a, d)
+    inexact_result('update_inv_sum_diag', out, inv_a, d)
+    d64 = twin(d)
+    full = np.zeros(n, dtype=d64.dtype)
+    full[:d64.size] = d64
     target = a + np.diag(full)
-    conds = [cond2(a)] + [cond2(a + np.diag(np.concatenate([full[:i + 1], np.zeros(n - i - 1)]))) for i in range(d.size)]
-    tol = max(1e-9, 500 * EPS * max(conds) ** 2 * n)
-    e = np.abs(out @ target - np.eye(n)).max()
+    conds = [cond2(a)] + [cond2(a + np.diag(np.concatenate([full[:i + 1], np.zeros(n - i - 1)]))) for i in range(d64.size)]
+    tol = tol_for(max(conds) ** 2, n, 500, inv_a, d)
+    e = np.abs(twin(out) @ target - np.eye(n)).max() if n else 0.0
     if not e <= tol:
-        return 'not-the-inverse', 'max |out (A+D) - I| = %.3e (tol %.3e)' % (e, tol)
+        return 'not-the-inverse' + vtag(var), 'max |out (A+D) - I| = %.3e (tol %.3e)' % (e, tol)
     return None
 
 
 def o_eig_select(case):
     _, _, misc, _ = _impl()
-    a = dec(case['A'])
+    var = case.get('var')
+    a = realize(case['A'], var)
+    a64 = twin(a)
     n = int(case['n'])
     which = case['which']
     fn = misc.peig if which == 'peig' else misc.leig
     ncols = a.shape[1]
+    sfx = vtag(var)
     if n > ncols:
+        snap = np.array(a, copy=True)
         try:
             fn(a, n)
         except ValueError:
+            if not same(a, snap):
+                return 'R4:rejected-call-modified-input' + sfx, 'A changed by the rejected call'
             return None
-        return 'no-ValueError-for-n>ncols', 'n=%d ncols=%d' % (n, ncols)
-    v, d = fn(a, n)
+        return 'no-ValueError-for-n>ncols' + sfx, 'n=%d ncols=%d' % (n, ncols)
+    v, d = call(which, fn, a, n)
+    inexact_result(which, v)
     if v.shape != (a.shape[0], n) or d.shape != (n,):
-        return 'shape', 'V %s D %s' % (v.shape, d.shape)
-    w = np.linalg.eigvalsh(a)               # ascending, independent kernel
+        return 'shape' + sfx, 'V %s D %s' % (v.shape, d.shape)
+    w = np.linalg.eigvalsh(a64)               # ascending, independent kernel
     want = w[::-1][:n] if which == 'peig' else w[:n]
-    scale = max(1.0, np.abs(w).max())
-    tol = 1e-9 * scale
+    scale = nz(np.abs(w).max() if w.size else 0)
+    e0 = eps_of(a) / EPS
+    tol = 1e-9 * scale * e0
     if not np.all(np.abs(np.asarray(d) - want) <= tol):
-        return 'wrong-eigenvalues-selected', 'got %r want %r' % (np.asarray(d).tolist(), want.tolist())
-    res = np.abs(a @ v - v * d).max() if n else 0.0
-    if not res <= 1e-8 * scale:
-        return 'not-eigenvectors', 'residual %.3e' % res
+        return 'wrong-eigenvalues-selected' + sfx, 'got %r want %r' % (np.asarray(d).tolist(), want.tolist())
+    res = np.abs(a64 @ v - v * d).max() if n else 0.0
+    if not res <= 1e-8 * scale * e0:
+        return 'not-eigenvectors' + sfx, 'residual %.3e' % res
     nrm = np.abs(np.linalg.norm(v, axis=0) - 1).max() if n else 0.0
-    if not nrm <= 1e-9:
-        return 'not-unit-norm', 'deviation %.3e' % nrm
+    if not nrm <= 1e-9 * e0:
+        return 'not-unit-norm' + sfx, 'deviation %.3e' % nrm
     return None
 
 
@@ -482,32 +716,40 @@ def lrsv_class(a, n):
 
 def o_lrsv(case):
     _, _, misc, _ = _impl()
-    a = dec(case['A'])
+    var = case.get('var')
+    a = realize(case['A'], var)
+    a64 = twin(a)
     n = int(case['n'])
     m, c = a.shape
+    sfx = vtag(var)
     try:
-        v0, v1, s1 = misc.least_right_singular_vectors(a, n)
+        v0, v1, s1 = call('least_right_singular_vectors', misc.least_right_singular_vectors, a, n)
+    except Violation:
+        raise
     except Exception as e:
-        return 'exception:' + lrsv_class(a, n), repr(e)[:200]
+        return 'exception:' + lrsv_class(a, n) + sfx, repr(e)[:200]
     if v0.shape != (c, n) or v1.shape != (c, c - n) or s1.shape != (c - n,):
-        return 'shape:' + lrsv_class(a, n), 'V0 %s V1 %s S %s' % (v0.shape, v1.shape, s1.shape)
+        return 'shape:' + lrsv_class(a, n) + sfx, 'V0 %s V1 %s S %s' % (v0.shape, v1.shape, s1.shape)
+    inexact_result('least_right_singular_vectors', v0)
     sv = np.zeros(c)
-    sv[:min(m, c)] = np.linalg.svd(a, compute_uv=False)
+    if min(m, c):
+        sv[:min(m, c)] = np.linalg.svd(a64, compute_uv=False)
     asc = sv[::-1]
-    scale = max(1.0, sv[0])
-    tol = 1e-9 * scale
-    v = np.hstack([v0, v1])
+    e0 = eps_of(a) / EPS
+    scale = nz(sv[0] if sv.size else 0)
+    tol = 1e-9 * scale * e0
+    v = np.hstack([twin(v0), twin(v1)])
     e = np.abs(H(v) @ v - np.eye(c)).max()
-    if not e <= 1e-9:
-        return 'not-orthonormal', 'deviation %.3e' % e
-    n0 = np.linalg.norm(a @ v0, axis=0)
+    if not e <= 1e-9 * e0:
+        return 'not-orthonormal' + sfx, 'deviation %.3e' % e
+    n0 = np.linalg.norm(a64 @ twin(v0), axis=0)
     if not np.all(np.abs(n0 - asc[:n]) <= tol):
-        return 'V0-not-least', '|A v0|=%r least singular values=%r' % (n0.tolist(), asc[:n].tolist())
+        return 'V0-not-least' + sfx, '|A v0|=%r least singular values=%r' % (n0.tolist(), asc[:n].tolist())
     if not np.all(np.abs(np.asarray(s1) - asc[n:]) <= tol):
-        return 'S-wrong', 'S=%r expected %r' % (np.asarray(s1).tolist(), asc[n:].tolist())
-    n1 = np.linalg.norm(a @ v1, axis=0)
+        return 'S-wrong' + sfx, 'S=%r expected %r' % (np.asarray(s1).tolist(), asc[n:].tolist())
+    n1 = np.linalg.norm(a64 @ twin(v1), axis=0)
     if not np.all(np.abs(n1 - np.asarray(s1)) <= tol):
-        return 'S-does-not-belong-to-V1', '|A v1|=%r S=%r' % (n1.tolist(), np.asarray(s1).tolist())
+        return 'S-does-not-belong-to-V1' + sfx, '|A v1|=%r S=%r' % (n1.tolist(), np.asarray(s1).tolist())
     return None
 
 
@@ -522,29 +764,144 @@ def gpcm_class(a):
 
 def o_gpcm(case):
     _, _, misc, _ = _impl()
-    a = dec(case['A'])
+    var = case.get('var')
+    a = realize(case['A'], var) if var else dec(case['A'])
     k = int(case['k'])
     m, c = a.shape
+    sfx = vtag(var)
     try:
-        out = misc.get_principal_component_matrix(a, k)
+        out = call('get_principal_component_matrix', misc.get_principal_component_matrix, a, k)
+    except Violation:
+        raise
     except Exception as e:
-        return 'exception:' + gpcm_class(a), repr(e)[:200]
-    af = a.astype(complex)
+        return 'exception:' + gpcm_class(a) + sfx, repr(e)[:200]
+    af = twin(a).astype(complex)
     u, s, vh = np.linalg.svd(af, full_matrices=False)
     ak = (u[:, :k] * s[:k]) @ vh[:k, :]          # best rank-k approximation (unique: the generator keeps a gap)
     want = ak[:, :k]
     if out.shape != want.shape:
-        return 'shape:' + gpcm_class(a), 'shape %s expected %s' % (out.shape, want.shape)
+        return 'shape:' + gpcm_class(a) + sfx, 'shape %s expected %s' % (out.shape, want.shape)
+    inexact_result('get_principal_component_matrix', out, a)
     gap = (s[k - 1] - (s[k] if k < s.size else 0.0)) / s[0] if k >= 1 else 1.0
-    tol = 1e-9 * max(1.0, s[0]) / max(gap, 1e-6)
-    e = np.abs(out - want).max()
+    tol = 1e-9 * nz(s[0] if s.size else 0) / max(gap, 1e-6) * eps_of(a) / EPS
+    e = np.abs(out - want).max() if out.size else 0.0
     if not e <= tol:
-        return 'not-principal-components:' + gpcm_class(a), 'max deviation %.3e' % e
+        return 'not-principal-components:' + gpcm_class(a) + sfx, 'max deviation %.3e' % e
     return None
 
 
 def dlog10(x):
     return decimal.Decimal(x).log10()
+
+
+SCALAR_TYPES = ['pyint', 'pyfloat', 'int8', 'uint8', 'int16', 'uint16', 'int32', 'int64', 'float64', 'float32',
+                'float16']
+ARRAY_SHAPES = [[], [0], [1], [3, 1], [1, 3], [2, 3], [2, 1, 3], [0, 3]]
+ARRAY_DTYPES = ['float64', 'float32', 'int8', 'uint8', 'int16', 'int32', 'int64']
+
+
+def mk_scalar(v, t):
+    if t == 'pyint':
+        return int(round(v))
+    if t == 'pyfloat':
+        return float(v)
+    if t.startswith('uint'):
+        return getattr(np, t)(abs(int(round(v))))
+    return getattr(np, t)(int(round(v)) if t.startswith('int') else v)
+
+
+def type_rtol(t):
+    if t in ('float16',):
+        return 4e-3
+    if t in ('float32',):
+        return 2e-6
+    return 1e-12
+
+
+def conv_refs(x, y, b):
+    """60-digit decimal references of the six conversions at the exact binary values x, y, b"""
+    decimal.getcontext().prec = 60
+    D = decimal.Decimal
+    return {
+        'linear2dB': float(10 * dlog10(x)),
+        'dB2Linear': float(D(10) ** (D(y) / 10)),
+        'linear2dBm': float(10 * dlog10(x) + 30),
+        'dBm2Linear': float(D(10) ** ((D(y) - 30) / 10)),
+        'SNR_dB_to_EbN0_dB': float(D(y) - 10 * dlog10(b)),
+        'EbN0_dB_to_SNR_dB': float(D(y) + 10 * dlog10(b)),
+    }
+
+
+def o_conversion_types(case):
+    """R1 / R2 for the conversions: the same values as Python / numpy scalars of every width, as arrays of
+    every dtype, shape and layout, must give the double precision result (or the precision of a float32 /
+    float16 input), positionally, with a floating point result type"""
+    _, _, _, conv = _impl()
+    x, y, b = float(case['x']), float(case['y']), float(case['bits'])
+    form = case['form']
+    refs = conv_refs(x, y, b)
+    kind = form['kind']
+    if kind == 'scalar':
+        t = form['type']
+        rt_ = type_rtol(t)
+        xs, ys, bs = mk_scalar(x, t), mk_scalar(y, t), mk_scalar(b, t)
+        x, y, b = float(xs), float(ys), float(bs)          # the values actually passed
+        refs = conv_refs(x, y, b)
+        got = {
+            'linear2dB': conv.linear2dB(xs), 'dB2Linear': conv.dB2Linear(ys), 'linear2dBm': conv.linear2dBm(xs),
+            'dBm2Linear': conv.dBm2Linear(ys), 'SNR_dB_to_EbN0_dB': conv.SNR_dB_to_EbN0_dB(ys, 4),
+            'EbN0_dB_to_SNR_dB': conv.EbN0_dB_to_SNR_dB(ys, 4),
+            'SNR_dB_to_EbN0_dB(bits)': conv.SNR_dB_to_EbN0_dB(y, bs), 'EbN0_dB_to_SNR_dB(bits)': conv.EbN0_dB_to_SNR_dB(y, bs),
+        }
+        r4 = conv_refs(x, y, 4.0)
+        want = dict(refs)
+        want['SNR_dB_to_EbN0_dB'], want['EbN0_dB_to_SNR_dB'] = r4['SNR_dB_to_EbN0_dB'], r4['EbN0_dB_to_SNR_dB']
+        want['SNR_dB_to_EbN0_dB(bits)'], want['EbN0_dB_to_SNR_dB(bits)'] = refs['SNR_dB_to_EbN0_dB'], refs['EbN0_dB_to_SNR_dB']
+        cls_t = 'narrow-integer' if t in ('int8', 'uint8', 'int16', 'uint16') else t
+        for nm, g in got.items():
+            if np.asarray(g).dtype.kind not in 'f':
+                return 'R1:integer-result-dtype:%s:%s' % (nm, cls_t), '%s(%s) has dtype %s' % (nm, t, np.asarray(g).dtype)
+            w = want[nm]
+            if not abs(float(g) - w) <= rt_ * max(1.0, abs(w)):
+                return 'R1:scalar-type-changes-value:%s:%s' % (nm.split('(')[0], cls_t), \
+                    '%s with a %s argument = %r, double precision value %r' % (nm, t, float(g), w)
+        return None
+    # arrays
+    shape, dt, layout = tuple(form['shape']), form['dtype'], form.get('layout')
+    rt_ = type_rtol(dt)
+    size = int(np.prod(shape)) if shape else 1
+    mult = np.arange(1, size + 1).reshape(shape) if size else np.zeros(shape)
+    if form.get('broadcast'):
+        xa = np.broadcast_to(np.array(x, dtype=dt), shape)
+        ya = np.broadcast_to(np.array(y, dtype=dt), shape)
+        mult = np.ones(shape)
+    else:
+        isint = dt.startswith(('int', 'uint'))
+        xa = relayout((np.round(x) + mult if isint else x * mult).astype(dt), layout)
+        ya = relayout(((abs(np.round(y)) if dt.startswith('uint') else np.round(y)) + mult if isint
+                       else y + mult * 0.5).astype(dt), layout)
+    cls_t = 'array:' + ('narrow-integer' if dt in ('int8', 'uint8', 'int16') else dt)
+    for nm, fn, arr in (('linear2dB', conv.linear2dB, xa), ('linear2dBm', conv.linear2dBm, xa),
+                        ('dB2Linear', conv.dB2Linear, ya), ('dBm2Linear', conv.dBm2Linear, ya),
+                        ('SNR_dB_to_EbN0_dB', lambda v: conv.SNR_dB_to_EbN0_dB(v, 4), ya),
+                        ('EbN0_dB_to_SNR_dB', lambda v: conv.EbN0_dB_to_SNR_dB(v, 4), ya)):
+        snap = np.array(arr, copy=True)
+        out = fn(arr)
+        if not same(arr, snap):
+            return 'R3:input-modified:' + nm, 'the argument array changed'
+        if np.shape(out) != shape:
+            return 'R2:shape-changed:' + nm, 'input shape %s result shape %s' % (shape, np.shape(out))
+        if np.asarray(out).dtype.kind != 'f':
+            return 'R1:integer-result-dtype:%s:%s' % (nm, cls_t), 'result dtype %s' % np.asarray(out).dtype
+        flat_in = np.asarray(arr, dtype=float).reshape(-1)
+        flat_out = np.asarray(out, dtype=float).reshape(-1)
+        for vi, vo in zip(flat_in, flat_out):
+            w = conv_refs(vi if nm.startswith('linear') else 1.0, vi, 4.0)[nm]
+            if not abs(vo - w) <= rt_ * max(1.0, abs(w)):
+                return 'R1R2:array-changes-value:%s:%s' % (nm, cls_t), \
+                    '%s of element %r (dtype %s, shape %s, layout %s) = %r, double precision value %r' % (
+                        nm, vi, dt, shape, layout, vo, w)
+    return None
 
 
 def o_conversion(case):
@@ -598,6 +955,133 @@ def o_conversion(case):
     return None
 
 
+def o_rejected_calls(case):
+    """R4: a call that raises leaves its arguments untouched and later calls behave as if it never happened"""
+    _, _, misc, _ = _impl()
+    a = dec(case['A'])                       # Hermitian
+    n = int(case['n'])
+    ncols = a.shape[1]
+    for which, fn in (('peig', misc.peig), ('leig', misc.leig)):
+        fresh = fn(a.copy(), n)
+        a1 = a.copy()
+        try:
+            fn(a1, ncols + int(case['excess']))
+            return 'R4:no-ValueError:' + which, 'n = ncols + %d accepted' % case['excess']
+        except ValueError:
+            pass
+        if not same(a1, a):
+            return 'R4:rejected-call-modified-input:' + which, 'A changed'
+        after = fn(a1, n)
+        if not (same(after[0], fresh[0]) and same(after[1], fresh[1])):
+            return 'R4:result-differs-after-rejected-call:' + which, 'results differ from a fresh call'
+    inv_a = np.linalg.inv(a + (np.abs(a).sum() + 1) * np.eye(ncols))
+    d = np.linspace(1.0, 2.0, ncols) * nz(np.abs(inv_a).max()) ** -1
+    fresh = misc.update_inv_sum_diag(inv_a.copy(), d.copy())
+    i1, dl = inv_a.copy(), np.concatenate([d, d[:1]])
+    dl0 = dl.copy()
+    try:
+        misc.update_inv_sum_diag(i1, dl)
+        return 'R4:no-IndexError:update_inv_sum_diag', 'a diagonal longer than the matrix was accepted'
+    except IndexError:
+        pass
+    if not (same(i1, inv_a) and same(dl, dl0)):
+        return 'R4:rejected-call-modified-input:update_inv_sum_diag', 'invA or the diagonal changed'
+    if not same(misc.update_inv_sum_diag(i1, d), fresh):
+        return 'R4:result-differs-after-rejected-call:update_inv_sum_diag', 'results differ from a fresh call'
+    r = dec(case['R'])                       # tall full-rank matrix
+    fresh = misc.get_principal_component_matrix(r.copy(), 1)
+    r1 = r.copy()
+    try:
+        misc.get_principal_component_matrix(r1, r.shape[0] + 1)
+        raised = False
+    except Exception:
+        raised = True
+    if raised and not same(r1, r):
+        return 'R4:rejected-call-modified-input:get_principal_component_matrix', 'A changed'
+    if not same(misc.get_principal_component_matrix(r1, 1), fresh):
+        return 'R4:result-differs-after-rejected-call:get_principal_component_matrix', 'results differ from a fresh call'
+    return None
+
+
+def o_projection_history(case):
+    """R3 / R7: a Projection object used repeatedly, in any order, behaves like a freshly built one; results
+    handed out earlier never change; the caller's matrix may be changed after construction; two objects
+    built from the same array do not influence each other"""
+    proj, _, _, _ = _impl()
+    a = dec(case['A'])
+    ms = [dec(m) for m in case['Ms']]
+    a_shared = a.copy()
+    obj = proj.Projection(a_shared)
+    other = proj.Projection(a_shared)         # second user of the same array
+    q0, oq0 = obj.Q.copy(), obj.oQ.copy()
+    handed = []
+    for step, (op, mi) in enumerate(case['ops']):
+        mm = ms[mi]
+        snap = mm.copy()
+        r = getattr(obj, op)(mm)
+        if not same(mm, snap):
+            return 'R3:input-modified:Projection.' + op, 'M changed (step %d)' % step
+        fresh = getattr(proj.Projection(a.copy()), op)(mm.copy())
+        if not same(r, fresh):
+            return 'R7:history-dependent:Projection.' + op, 'step %d differs from a fresh object by %.3e' % (
+                step, float(np.abs(r - fresh).max()))
+        if isinstance(r, np.ndarray) and r.size and (np.shares_memory(r, mm) or np.shares_memory(r, obj.Q)
+                                                       or np.shares_memory(r, obj.oQ)):
+            return 'R3:output-aliases-internal:Projection.' + op, 'result shares memory with M / Q / oQ'
+        handed.append((r, r.copy()))
+        if step == len(case['ops']) // 2:
+            a_shared[...] = 0                  # the caller reuses its buffer
+            getattr(other, op)(mm)
+    if not (same(obj.Q, q0) and same(obj.oQ, oq0)):
+        return 'R7:projection-matrices-changed', 'Q / oQ changed during the history'
+    if not (same(other.Q, q0) and same(other.oQ, oq0)):
+        return 'R7:shared-array-object-changed', 'the second object built from the same array changed'
+    for r, c in handed:
+        if not same(r, c):
+            return 'R3:earlier-result-changed', 'a result handed out earlier changed after later calls'
+    return None
+
+
+def o_independence(case):
+    """R3: results are fresh values: calling again (with other or the same arguments) never changes a result
+    handed out before, and the same arguments give the same result (no hidden state)"""
+    proj, met, misc, conv = _impl()
+    a, b = dec(case['A']), dec(case['B'])
+    hm = a @ H(a) + np.eye(a.shape[0])
+    inv_h = np.linalg.inv(hm)
+    dg = np.linspace(0.5, 1.5, a.shape[0])
+    u, s, vh = np.linalg.svd(a)
+    routines = [
+        ('calcProjectionMatrix', lambda x, y: proj.calcProjectionMatrix(x)),
+        ('calcOrthogonalProjectionMatrix', lambda x, y: proj.calcOrthogonalProjectionMatrix(x)),
+        ('calc_principal_angles', lambda x, y: met.calc_principal_angles(x, y)),
+        ('least_right_singular_vectors', lambda x, y: misc.least_right_singular_vectors(x, 1)),
+        ('get_principal_component_matrix', lambda x, y: misc.get_principal_component_matrix(x, 1)),
+        ('peig', lambda x, y: misc.peig(x @ H(x), 1)),
+        ('leig', lambda x, y: misc.leig(x @ H(x), 1)),
+        ('calc_whitening_matrix', lambda x, y: misc.calc_whitening_matrix(H(x) @ x + np.eye(x.shape[1]))),
+        ('update_inv_sum_diag', lambda x, y: misc.update_inv_sum_diag(inv_h if x is a else inv_h.T.copy(), dg)),
+        ('gmd', lambda x, y: misc.gmd(*np.linalg.svd(x))),
+        ('dB2Linear', lambda x, y: conv.dB2Linear(np.abs(x))),
+        ('linear2dB', lambda x, y: conv.linear2dB(np.abs(x) + 1)),
+    ]
+    flat = lambda r: list(r) if isinstance(r, tuple) else [r]
+    for nm, f in routines:
+        r1 = flat(f(a, b))
+        c1 = [np.array(x, copy=True) for x in r1]
+        f(b, a)
+        r3 = flat(f(a, b))
+        for x, c, y in zip(r1, c1, r3):
+            if not same(x, c):
+                return 'R3:earlier-result-changed:' + nm, 'a result changed after a later call'
+            if not same(np.asarray(y), c):
+                return 'R3:hidden-state:' + nm, 'the same arguments gave a different result the second time'
+            for z in (a, b):
+                if isinstance(x, np.ndarray) and x.size and np.shares_memory(x, z):
+                    return 'R3:output-aliases-input:' + nm, 'a result shares memory with an argument'
+    return None
+
+
 ORACLES = {
     'Projection': o_projection,
     'calcProjectionMatrix.invariance': o_projection_invariance,
@@ -610,20 +1094,28 @@ ORACLES = {
     'least_right_singular_vectors': o_lrsv,
     'get_principal_component_matrix': o_gpcm,
     'conversion': o_conversion,
+    'conversion.types': o_conversion_types,
+    'rejected-calls': o_rejected_calls,
+    'Projection.history': o_projection_history,
+    'independence': o_independence,
 }
 
 
-def run_oracle(ctx, call, case, key=None, nontrivial=True):
-    ctx.count((call, key if key is not None else core.hashlib.sha1(repr(case).encode()).hexdigest()), nontrivial)
+def run_oracle(ctx, call_name, case, key=None, nontrivial=True):
+    ctx.count((call_name, key if key is not None else core.hashlib.sha1(repr(case).encode()).hexdigest()), nontrivial)
+    for br in vbranches(case.get('var') if isinstance(case, dict) else None):
+        ctx.branch('oracle-' + br)
     try:
-        r = ORACLES[call](case)
+        r = ORACLES[call_name](case)
+    except Violation as v:
+        r = (v.cls + vtag(case.get('var')), v.detail)
     except Exception as e:  # an exception where the property promises a value
-        r = ('exception:' + type(e).__name__, repr(e)[:300])
+        r = ('exception:' + type(e).__name__ + vtag(case.get('var')), repr(e)[:300])
     if r is not None:
-        ctx.fail(call, r[0], case, r[1])
-        ctx.branch('oracle-fail:' + call)
+        ctx.fail(call_name, r[0], case, r[1])
+        ctx.branch('oracle-fail:' + call_name)
     else:
-        ctx.branch('oracle-ok:' + call)
+        ctx.branch('oracle-ok:' + call_name)
     return r
 
 
@@ -633,6 +1125,7 @@ def replay(ctx, rep):
     except Exception:
         return True
     return r is not None
+
 
 
 # ------------------------------------------------------------ case streams
@@ -745,13 +1238,224 @@ def gen_rect(g, gap_at=None):
     return a
 
 
+# ------------------------------------------------- variant streams (R1-R7)
+def pick_var(rng, t):
+    """stratified input variants: every residue class of t is one R-class combination"""
+    cyc = t % 10
+    tiny = 10.0 ** rng.uniform(-15, -11)
+    huge = 10.0 ** rng.uniform(11, 15)
+    return [None, {'dtype': 'f32'}, {'layout': 'F'}, {'scale': tiny}, {'scale': huge}, {'layout': 'rev'},
+            {'dtype': INT_DTYPES[(t // 10) % len(INT_DTYPES)]}, {'layout': 'strided'},
+            {'dtype': 'f32', 'layout': 'T'}, {'scale': tiny if (t // 10) % 2 else huge, 'layout': 'F'}][cyc]
+
+
+def var_base(g, m, k, cplx, var, max_cond=30.0):
+    """well conditioned m x k basis suited to the variant (integer valued for integer dtypes)"""
+    dt = (var or {}).get('dtype')
+    if dt in INT_DTYPES:
+        cplx = False
+    for _ in range(400):
+        if dt in INT_DTYPES or g.rng.chance(0.5):
+            a = g.rs.randint(-3, 4, size=(m, k)).astype(float)
+            if dt == 'uint8':
+                a = np.abs(a)
+            if cplx:
+                a = a + 1j * g.rs.randint(-3, 4, size=(m, k))
+        else:
+            a = g.raw(m, k, cplx)
+        if min(m, k) == 0 or (np.linalg.matrix_rank(a) == min(m, k) and np.linalg.cond(a) <= max_cond):
+            return a
+    a = np.eye(m, k)
+    return a.astype(complex) if cplx else a
+
+
+def var_rect(g, var, cplx=None):
+    m, c = g.rng.randint(1, 8), g.rng.randint(1, 8)
+    cplx = g.rng.chance(0.5) if cplx is None else cplx
+    if m >= c:
+        return var_base(g, m, c, cplx, var)
+    return var_base(g, c, m, cplx, var).T.copy()
+
+
+def var_cov(g, n, cplx, var, t):
+    dt = (var or {}).get('dtype')
+    if dt in INT_DTYPES:
+        x = g.rs.randint(-2, 3, size=(n, n + 1)).astype(float)
+        c = x @ x.T + np.eye(n)
+        if dt == 'uint8':          # non-negative entries, diagonally dominant, inside 0..255
+            c = np.abs(c)
+            c = c - np.diag(np.diag(c)) + np.diag(np.abs(c - np.diag(np.diag(c))).sum(axis=1) + 1.0)
+        return c if np.abs(c).max() <= 120 else 3.0 * np.eye(n)
+    c, _ = g.hpd(n, cplx, ['wishart', 'rank1', 'spectrum', 'ident'][t % 4])
+    return c
+
+
+def var_uisd(g, var):
+    dt = (var or {}).get('dtype')
+    if dt in INT_DTYPES:
+        n = g.rng.randint(1, 6)
+        perm = list(range(n))
+        g.rng.shuffle(perm)
+        a = np.eye(n)[perm]                     # its inverse is the integer matrix a.T
+        d = np.array([float(g.rng.randint(1, 3)) for _ in range(n)])
+        full_ok = all(cond2(a + np.diag(np.concatenate([d[:i + 1], np.zeros(n - i - 1)]))) <= 1e3 for i in range(n))
+        if full_ok:
+            return a, d
+        return np.eye(n), d
+    a, d = gen_uisd_case(g, short=False)
+    return a, d
+
+
+def conversion_forms(t):
+    forms = [{'kind': 'scalar', 'type': ty} for ty in SCALAR_TYPES]
+    for i, shp in enumerate(ARRAY_SHAPES):
+        for j, dt in enumerate(ARRAY_DTYPES):
+            if (i + j) % 3 == t % 3:
+                forms.append({'kind': 'array', 'shape': shp, 'dtype': dt,
+                              'layout': [None, 'F', 'rev', 'strided', 'T'][(i + j + t) % 5]})
+    forms.append({'kind': 'array', 'shape': [2, 3], 'dtype': 'float64', 'broadcast': True})
+    forms.append({'kind': 'array', 'shape': [4], 'dtype': 'int16', 'broadcast': True})
+    return forms
+
+
+def variant_oracles(ctx, n):
+    """the first-principles oracles on every routine under every input variant"""
+    g = Gen(ctx.rng.fork('variants'))
+    rng = g.rng
+    for t in range(n):
+        var = pick_var(rng, t)
+        cplx = (t // 10) % 2 == 0
+        m = rng.randint(1, 8)
+        k = rng.randint(1, m)
+        a = var_base(g, m, k, cplx, var)
+        run_oracle(ctx, 'Projection', {'A': enc(a), 'M': enc(g.raw(m, rng.randint(1, 3), cplx)), 'var': var})
+        tm, _ = g.full_rank(k, k, np.iscomplexobj(a), max_cond=1e1)
+        run_oracle(ctx, 'calcProjectionMatrix.invariance',
+                   {'A': enc(a), 'T': enc(tm), 'U': enc(g.unitary(m, np.iscomplexobj(a))), 'var': var})
+        b = var_base(g, m, k, cplx, var)
+        case = {'A': enc(a), 'B': enc(b), 'var': var}
+        if var and var.get('scale') is not None:
+            case['scaleB'] = 10.0 ** rng.uniform(-15, 15)      # the two bases on unrelated scales
+        run_oracle(ctx, 'calc_chordal_distance', case)
+        if var is None or var.get('scale') is not None:
+            run_oracle(ctx, 'calc_chordal_distance.invariance',
+                       {'A': enc(a), 'B': enc(b), 'TA': enc(tm), 'TB': enc(tm.T.copy()),
+                        'U': enc(g.unitary(m, np.iscomplexobj(a))), 'var': var})
+        r = var_rect(g, var)
+        run_oracle(ctx, 'gmd', {'A': enc(r), 'var': var})
+        run_oracle(ctx, 'least_right_singular_vectors', {'A': enc(r), 'n': rng.randint(0, r.shape[1]), 'var': var})
+        s = np.linalg.svd(r.astype(complex), compute_uv=False)
+        ks = [kk for kk in range(1, s.size + 1) if (s[kk - 1] - (s[kk] if kk < s.size else 0.0)) >= 1e-2 * s[0]]
+        if ks:
+            run_oracle(ctx, 'get_principal_component_matrix', {'A': enc(r), 'k': rng.choice(ks), 'var': var})
+        n_ = rng.randint(1, 6)
+        run_oracle(ctx, 'calc_whitening_matrix', {'C': enc(var_cov(g, n_, cplx, var, t)), 'var': var})
+        ua, ud = var_uisd(g, var)
+        run_oracle(ctx, 'update_inv_sum_diag', {'A': enc(ua), 'd': enc(ud), 'var': var})
+        for _ in range(50):
+            x = g.rs.randint(-3, 4, size=(n_, n_)).astype(float)
+            if cplx and not (var and var.get('dtype') in INT_DTYPES):
+                x = x + 1j * g.rs.randint(-3, 4, size=(n_, n_))
+            hm = x + H(x)
+            if var and var.get('dtype') == 'uint8':
+                hm = np.abs(hm)
+            w = np.linalg.eigvalsh(hm)
+            if n_ < 2 or np.min(np.diff(w)) >= 1e-2 * max(1.0, np.abs(w).max()):
+                break
+        else:
+            hm = np.diag(np.arange(1.0, n_ + 1))
+        run_oracle(ctx, 'peig/leig', {'A': enc(hm), 'n': rng.randint(0, n_ + 1), 'which': ['peig', 'leig'][t % 2],
+                                      'var': var})
+        # conversions: integer-valued, in the range of every scalar type
+        forms = conversion_forms(t)
+        f = forms[t % len(forms)]
+        run_oracle(ctx, 'conversion.types', {'x': float(rng.randint(1, 60)), 'y': float(rng.randint(-30, 30)),
+                                             'bits': float(rng.randint(1, 10)), 'form': f},
+                   key=('conv-form', t, repr(f)))
+        ctx.branch('oracle-R1:scalar-' + f['type'] if f['kind'] == 'scalar' else
+                   'oracle-R2:array-shape-%s' % 'x'.join(map(str, f['shape'])))
+        # R3 / R4 / R7
+        run_oracle(ctx, 'independence', {'A': enc(var_base(g, 4, 2, cplx, None)), 'B': enc(var_base(g, 4, 2, cplx, None))})
+        hh = g.raw(n_, n_, cplx)
+        run_oracle(ctx, 'rejected-calls', {'A': enc(hh + H(hh)), 'n': rng.randint(0, n_), 'excess': rng.randint(1, 3),
+                                           'R': enc(var_base(g, n_ + 1, max(1, n_ - 1), cplx, None))})
+        ms = [g.raw(m, rng.randint(1, 3), cplx), g.raw(m, 1, cplx)[:, 0], g.raw(m, 2, False)]
+        ops = [(rng.choice(['project', 'oProject', 'reflect']), rng.randint(0, 2)) for _ in range(rng.randint(3, 8))]
+        run_oracle(ctx, 'Projection.history', {'A': enc(a), 'Ms': [enc(x) for x in ms], 'ops': [list(o) for o in ops]})
+        ctx.branch('oracle-R3:independence')
+        ctx.branch('oracle-R4:rejected-calls')
+        ctx.branch('oracle-R7:object-history')
+
+
+def boundary_oracles(ctx):
+    """R5: boundary and degenerate values of every parameter (deterministic list)"""
+    g = Gen(ctx.rng.fork('boundary'))
+    e = np.eye(8)
+    cases = []
+    for cplx in (False, True):
+        one = np.array([[2.0 - 1.0j if cplx else -3.0]])
+        cases += [
+            ('Projection', {'A': enc(one), 'M': enc(np.array([[5.0]]))}),                      # 1 x 1
+            ('Projection', {'A': enc(g.raw(6, 6, cplx)), 'M': enc(g.raw(6, 1, cplx))}),       # square: P = 1, P_orth = 0
+            ('Projection', {'A': enc(e[:, :1] * (1j if cplx else 1.0)), 'M': enc(np.zeros((8, 2)))}),   # unit vector, zero M
+            ('Projection', {'A': enc(g.raw(3, 0, cplx)), 'M': enc(g.raw(3, 2, cplx))}),       # empty basis: P = 0
+            ('Projection', {'A': enc(g.raw(4, 2, cplx)), 'M': enc(g.raw(4, 1, cplx)[:, 0])}),  # 1-D vector M
+            ('Projection', {'A': enc(g.raw(4, 2, cplx)), 'M': enc(g.raw(4, 0, cplx))}),        # M without columns
+            ('calc_chordal_distance', {'A': enc(e[:, :3] + 0j if cplx else e[:, :3]), 'B': enc(e[:, 3:6])}),  # orthogonal: sqrt(3)
+            ('calc_chordal_distance', {'A': enc(g.raw(5, 5, cplx)), 'B': enc(g.raw(5, 5, cplx))}),           # whole space: 0
+            ('calc_chordal_distance', {'A': enc(one), 'B': enc(one * 7)}),
+            ('gmd', {'A': enc(one)}), ('gmd', {'A': enc(g.raw(1, 5, cplx))}), ('gmd', {'A': enc(g.raw(5, 1, cplx))}),
+            ('calc_whitening_matrix', {'C': enc(np.array([[4.0]]) + 0j if cplx else np.array([[4.0]]))}),
+            ('calc_whitening_matrix', {'C': enc(np.eye(5))}),
+            ('calc_whitening_matrix', {'C': enc(np.eye(3) * 1e-13)}),                             # -100 dBm noise floor
+            ('update_inv_sum_diag', {'A': enc(g.hpd(4, cplx, 'wishart')[0]), 'd': enc(np.zeros(4))}),   # D = 0
+            ('update_inv_sum_diag', {'A': enc(g.hpd(4, cplx, 'wishart')[0]), 'd': enc(np.zeros(0))}),   # empty diagonal
+            ('update_inv_sum_diag', {'A': enc(one), 'd': enc(np.array([1.0]))}),
+            ('least_right_singular_vectors', {'A': enc(one), 'n': 0}),
+            ('least_right_singular_vectors', {'A': enc(one), 'n': 1}),
+            ('get_principal_component_matrix', {'A': enc(one), 'k': 1}),
+        ]
+        hm = g.raw(5, 5, cplx)
+        hm = hm + H(hm)
+        for n in (0, 1, 5, 6):
+            for which in ('peig', 'leig'):
+                cases.append(('peig/leig', {'A': enc(hm), 'n': n, 'which': which}))
+        r = g.raw(4, 7, cplx)
+        for n in (0, 3, 4, 7):
+            cases.append(('least_right_singular_vectors', {'A': enc(r), 'n': n}))
+            cases.append(('least_right_singular_vectors', {'A': enc(r.T.copy()), 'n': min(n, 4)}))
+        for k in (1, 4):
+            cases.append(('get_principal_component_matrix', {'A': enc(r), 'k': k}))
+            cases.append(('get_principal_component_matrix', {'A': enc(r.T.copy()), 'k': k}))
+        for size in (9, 15, 16, 17):          # sizes around a power of two, beyond the usual range
+            cases.append(('Projection', {'A': enc(g.raw(size, size // 2, cplx)), 'M': enc(g.raw(size, 1, cplx))}))
+            cases.append(('gmd', {'A': enc(g.raw(size, size - 1, cplx))}))
+    for x, y, b in ((1.0, 0.0, 1), (1.0, 30.0, 2), (1e-15, -150.0, 1), (1e15, 150.0, 10), (1000.0, -0.0, 1)):
+        cases.append(('conversion', {'x': x, 'y': y, 'bits': b}))
+    for i, (call_name, case) in enumerate(cases):
+        run_oracle(ctx, call_name, case, key=('boundary', i))
+    ctx.branch('oracle-R5:boundary', len(cases))
+
+
 # ------------------------------------------------------------ correspondence
 def corr_projection(ctx, g, drv, n_cases):
     proj, _, _, _ = _impl()
     cases = []
     lines = []
-    for t in range(n_cases):
-        a, mm, kind = gen_proj_case(g, t)
+    inputs = [gen_proj_case(g, t) + (None, None) for t in range(n_cases)]
+    for var, cplx, t in corr_variants(ctx, g, max(10, n_cases // 2)):
+        m = g.rng.randint(1, 8)
+        base = var_base(g, m, g.rng.randint(1, m), cplx, var)
+        a = realize(enc(base), var)
+        inputs.append((a, relayout(g.raw(m, g.rng.randint(1, 3), np.iscomplexobj(a)), (var or {}).get('layout')),
+                       'variant', var, base))
+    for cplx in (False, True):          # R5: 1 x 1, square, a single unit vector
+        one = np.array([[2.0 - 1.0j if cplx else -3.0]])
+        inputs += [(one, np.array([[5.0]]), 'boundary', None, None),
+                   (g.raw(5, 5, cplx), g.raw(5, 2, cplx), 'boundary', None, None),
+                   (np.eye(8)[:, :1] * (1j if cplx else 1.0), np.zeros((8, 2)), 'boundary', None, None)]
+        ctx.branch('corr-R5:boundary', 3)
+    for (a, mm, kind, var, base) in inputs:
         m, k = a.shape
         with Tap() as tap:
             p = proj.calcProjectionMatrix(a)
@@ -765,35 +1469,36 @@ def corr_projection(ctx, g, drv, n_cases):
             ctx.corr('calcProjectionMatrix.kernel-calls', enc(a), 'calls=%s' % [c[0] for c in tap.log], 'calls=[inv]')
             continue
         arg, gmat = invs[0][1][0], invs[0][3]
-        cases.append((a, mm, kind, p, op, pm, om, rm, arg, gmat, obj))
+        cases.append((a, mm, kind, p, op, pm, om, rm, arg, gmat, obj,
+                      {'A': enc(base if base is not None else a), 'M': enc(mm), 'var': var}))
         lines.append('proj %d %d %s %s' % (m, k, cline(a), cline(gmat)))
         lines.append('apply %d %d %s %s' % (m, mm.shape[1], cline(obj.Q), cline(mm)))
         lines.append('apply %d %d %s %s' % (m, mm.shape[1], cline(obj.oQ), cline(mm)))
     out = drv.ask(lines)
-    for i, (a, mm, kind, p, op, pm, om, rm, arg, gmat, obj) in enumerate(cases):
+    for i, (a, mm, kind, p, op, pm, om, rm, arg, gmat, obj, case) in enumerate(cases):
         m, k = a.shape
         cplx = np.iscomplexobj(a)
         key = ('proj', m, k, cplx, kind)
-        case = {'A': enc(a), 'M': enc(mm)}
+        a64, rt_ = twin(a), rt(1e-9, a, mm)
         ctx.branch('proj:' + kind)
         ctx.branch('complex' if cplx else 'real')
         ctx.branch('square' if m == k else 'tall')
         g_s, p_s, o_s = out[3 * i].split('|')
         # (1) what the code hands to the kernel is what the model says
-        ok, why = within(arg, parse_c(g_s, (k, k)), np.abs(H(a)) @ np.abs(a))
+        ok, why = within(arg, parse_c(g_s, (k, k)), np.abs(H(a64)) @ np.abs(a64), rtol=rt_)
         ctx.corr('calcProjectionMatrix.inv-argument', case, 'agree' if ok else 'differs: ' + why, 'agree',
                  key=key + ('arg', i))
         # (2) contract of the kernel result assumed by the theorems: G (A^H A) = 1
-        gram = H(a) @ a
+        gram = H(a64) @ a64
         c2 = cond2(a) ** 2
-        res = np.abs(gmat @ gram - np.eye(k)).max()
-        if not res <= max(1e-9, 100 * EPS * c2 * k):
+        res = np.abs(twin(gmat) @ gram - np.eye(k)).max()
+        if not res <= max(rt_, 100 * eps_of(a) * c2 * k):
             ctx.tie_broken('correspondence', 'contract:inv', 'G (A^H A) - I = %.3e (cond^2 %.2e)' % (res, c2), case)
         # (3) outputs
         bound = abs3(a, gmat, H(a))
-        ok, why = within(p, parse_c(p_s, (m, m)), bound)
+        ok, why = within(p, parse_c(p_s, (m, m)), bound, rtol=rt_)
         ctx.corr('calcProjectionMatrix', case, 'agree' if ok else 'differs: ' + why, 'agree', key=key + ('P', i))
-        ok, why = within(op, parse_c(o_s, (m, m)), bound + np.eye(m))
+        ok, why = within(op, parse_c(o_s, (m, m)), bound + np.eye(m), rtol=rt_)
         ctx.corr('calcOrthogonalProjectionMatrix', case, 'agree' if ok else 'differs: ' + why, 'agree',
                  key=key + ('oP', i))
         ok1 = np.array_equal(obj.Q, p) and np.array_equal(obj.oQ, op)
@@ -802,12 +1507,12 @@ def corr_projection(ctx, g, drv, n_cases):
         c = mm.shape[1]
         pr_s, rf_s = out[3 * i + 1].split('|')
         bnd = np.abs(obj.Q) @ np.abs(mm)
-        ok, why = within(pm, parse_c(pr_s, (m, c)), bnd)
+        ok, why = within(pm, parse_c(pr_s, (m, c)), bnd, rtol=rt_)
         ctx.corr('Projection.project', case, 'agree' if ok else 'differs: ' + why, 'agree', key=key + ('pm', i))
-        ok, why = within(rm, parse_c(rf_s, (m, c)), (np.eye(m) + 2 * np.abs(obj.Q)) @ np.abs(mm))
+        ok, why = within(rm, parse_c(rf_s, (m, c)), (np.eye(m) + 2 * np.abs(obj.Q)) @ np.abs(mm), rtol=rt_)
         ctx.corr('Projection.reflect', case, 'agree' if ok else 'differs: ' + why, 'agree', key=key + ('rm', i))
         opr_s, _ = out[3 * i + 2].split('|')
-        ok, why = within(om, parse_c(opr_s, (m, c)), np.abs(obj.oQ) @ np.abs(mm))
+        ok, why = within(om, parse_c(opr_s, (m, c)), np.abs(obj.oQ) @ np.abs(mm), rtol=rt_)
         ctx.corr('Projection.oProject', case, 'agree' if ok else 'differs: ' + why, 'agree', key=key + ('om', i))
         if i < 2:
             ctx.sample({'call': 'calcProjectionMatrix', 'A': enc(a), 'impl_P00': complex(p[0, 0]),
@@ -817,8 +1522,19 @@ def corr_projection(ctx, g, drv, n_cases):
 def corr_chordal(ctx, g, drv, n_cases):
     _, met, _, _ = _impl()
     cases, lines = [], []
-    for t in range(n_cases):
-        a, b, cplx = gen_pair(g, equal_dims=(t % 5 != 4))
+    inputs = [gen_pair(g, equal_dims=(t % 5 != 4)) + (None, None) for t in range(n_cases)]
+    for var, cplx, t in corr_variants(ctx, g, max(10, n_cases // 2)):
+        m = g.rng.randint(1, 8)
+        p = g.rng.randint(1, m)
+        ba, bb = var_base(g, m, p, cplx, var), var_base(g, m, p, cplx, var)
+        vb = dict(var, scale=10.0 ** g.rng.uniform(-15, 15)) if (var and var.get('scale') is not None) else var
+        a, b = realize(enc(ba), var), realize(enc(bb), vb)
+        inputs.append((a, b, np.iscomplexobj(a), var, (ba, bb)))
+    e8 = np.eye(8)
+    inputs += [(e8[:, :3], e8[:, 3:6], False, None, None), (e8[:, :2] + 0j, e8[:, :2] * 1j, True, None, None),
+               (g.raw(4, 4, True), g.raw(4, 4, True), True, None, None)]      # orthogonal, identical, whole space
+    ctx.branch('corr-R5:boundary', 3)
+    for (a, b, cplx, var, bases) in inputs:
         m, p = a.shape
         q = b.shape[1]
         with Tap() as t2:
@@ -830,33 +1546,34 @@ def corr_chordal(ctx, g, drv, n_cases):
         d3 = float(met.calc_chordal_distance_from_principal_angles(ang))
         names = ([c[0] for c in t2.log], [c[0] for c in t1.log], [c[0] for c in t3.log])
         if names != (['inv', 'inv'], ['qr', 'qr'], ['qr', 'qr', 'svd']):
-            ctx.corr('chordal.kernel-calls', {'A': enc(a), 'B': enc(b)}, repr(names),
+            ctx.corr('chordal.kernel-calls', {'A': enc(twin(a)), 'B': enc(twin(b))}, repr(names),
                      "(['inv','inv'],['qr','qr'],['qr','qr','svd'])")
             continue
         ga, gb = t2.log[0][3], t2.log[1][3]
         q1, q2 = t1.log[0][3][0], t1.log[1][3][0]
         q1b, q2b = t3.log[0][3][0], t3.log[1][3][0]
         svd_arg, svals = t3.log[2][1][0], t3.log[2][3][1]
-        cases.append((a, b, cplx, d1, d2, d3, ang, ga, gb, q1, q2, q1b, q2b, svd_arg, svals, t1, t3))
+        cases.append((a, b, cplx, d1, d2, d3, ang, ga, gb, q1, q2, q1b, q2b, svd_arg, svals, t1, t3,
+                      {'A': enc(bases[0] if bases else a), 'B': enc(bases[1] if bases else b), 'var': var}))
         lines.append('chord2 %d %d %d %s %s %s %s' % (m, p, q, cline(a), cline(b), cline(ga), cline(gb)))
         lines.append('chord %d %d %d %s %s' % (m, p, q, cline(q1), cline(q2)))
         lines.append('angles %s' % fline(svals))
     out = drv.ask(lines)
-    for i, (a, b, cplx, d1, d2, d3, ang, ga, gb, q1, q2, q1b, q2b, svd_arg, svals, t1, t3) in enumerate(cases):
+    for i, (a, b, cplx, d1, d2, d3, ang, ga, gb, q1, q2, q1b, q2b, svd_arg, svals, t1, t3, case) in enumerate(cases):
         m, p = a.shape
         q = b.shape[1]
-        case = {'A': enc(a), 'B': enc(b)}
         key = ('chord', m, p, q, cplx, i)
+        rt9, rt12 = rt(1e-9, a, b), rt(1e-12, a, b)
         ctx.branch('chordal:dims-equal' if p == q else 'chordal:dims-differ')
         ctx.branch('complex' if cplx else 'real')
         bound = float(np.max(abs3(a, ga, H(a))) + np.max(abs3(b, gb, H(b)))) * m
         md2 = core.s2f(out[3 * i])
-        ok = abs(md2 - d2) <= 1e-9 * max(bound, 1.0)
+        ok = abs(md2 - d2) <= rt9 * max(bound, 1.0)
         ctx.corr('calc_chordal_distance_2', case, 'agree' if ok else 'differs: impl %r model %r' % (d2, md2), 'agree',
                  key=key + ('d2',))
         c_s, arg_s = out[3 * i + 1].split('|')
         md1 = core.s2f(c_s)
-        ok = abs(md1 - d1) <= 1e-9 * max(1.0, m)
+        ok = abs(md1 - d1) <= rt9 * max(1.0, m)
         ctx.corr('calc_chordal_distance', case, 'agree' if ok else 'differs: impl %r model %r' % (d1, md1), 'agree',
                  key=key + ('d1',))
         # kernel arguments: qr is called on the inputs themselves, svd on Q1^H Q2
@@ -866,30 +1583,31 @@ def corr_chordal(ctx, g, drv, n_cases):
               and t3.log[2][2].get('full_matrices', True) is False)
         ctx.corr('chordal.qr-arguments', case, 'qr(matrix1),qr(matrix2)' if ok else 'differs',
                  'qr(matrix1),qr(matrix2)', key=key + ('qra',))
-        ok, why = within(svd_arg, parse_c(arg_s, (p, q)), np.abs(H(q1)) @ np.abs(q2))
+        ok, why = within(svd_arg, parse_c(arg_s, (p, q)), np.abs(H(q1)) @ np.abs(q2), rtol=rt9)
         ctx.corr('calc_principal_angles.svd-argument', case, 'agree' if ok else 'differs: ' + why, 'agree',
                  key=key + ('svda',))
         a_s, d_s = out[3 * i + 2].split('|')
         mang = parse_f(a_s)
-        ok = mang.shape == np.asarray(ang).shape and bool(np.all(np.abs(mang - ang) <= 1e-12))
+        ok = mang.shape == np.asarray(ang).shape and bool(np.all(np.abs(mang - ang) <= (1e-12 if rt12 <= 1e-12 else 2e-3)))
         ctx.corr('calc_principal_angles', case, 'agree' if ok else 'differs: impl %r model %r' % (ang.tolist(), mang.tolist()),
                  'agree', key=key + ('ang',))
         md3 = core.s2f(d_s)
-        ok = abs(md3 - d3) <= 1e-12 * max(1.0, d3)
+        ok = abs(md3 - d3) <= rt12 * max(1.0, d3)
         ctx.corr('calc_chordal_distance_from_principal_angles', case,
                  'agree' if ok else 'differs: impl %r model %r' % (d3, md3), 'agree', key=key + ('d3',))
         # contracts assumed by the theorems
-        tolc = max(1e-9, 100 * EPS * max(cond2(a), cond2(b)) ** 2 * m)
-        for (nm, x, qq) in (('A', a, q1), ('B', b, q2)):
+        tolc = max(rt9, 100 * eps_of(a, b) * max(cond2(a), cond2(b)) ** 2 * m)
+        for (nm, x, qq) in (('A', twin(a), twin(q1)), ('B', twin(b), twin(q2))):
             r = H(qq) @ x          # R = Q^H A ; contract: Q^H Q = 1 and A = Q R
             e1 = np.abs(H(qq) @ qq - np.eye(qq.shape[1])).max()
-            e2 = np.abs(qq @ r - x).max() / max(1.0, np.abs(x).max())
-            if not (e1 <= 1e-9 and e2 <= 1e-9):
+            e2 = np.abs(qq @ r - x).max() / nz(np.abs(x).max())
+            if not (e1 <= rt9 and e2 <= rt9):
                 ctx.tie_broken('correspondence', 'contract:qr', '%s: Q^HQ-I %.2e, QR-A %.2e' % (nm, e1, e2), case)
-        if not (np.all(svals >= 0) and np.all(np.diff(svals) <= 1e-12) and np.all(svals <= 1 + 1e-9)
-                and abs(float(np.sum(svals ** 2)) - float(np.sum(np.abs(svd_arg) ** 2))) <= 1e-9 * max(1.0, p)):
+        sv64 = np.asarray(svals, dtype=float)
+        if not (np.all(sv64 >= 0) and np.all(np.diff(sv64) <= rt12) and np.all(sv64 <= 1 + rt9)
+                and abs(float(np.sum(sv64 ** 2)) - float(np.sum(np.abs(twin(svd_arg)) ** 2))) <= rt9 * max(1.0, p)):
             ctx.tie_broken('correspondence', 'contract:svd', 'singular values %r' % svals.tolist(), case)
-        for (x, gg) in ((a, ga), (b, gb)):
+        for (x, gg) in ((twin(a), twin(ga)), (twin(b), twin(gb))):
             res = np.abs(gg @ (H(x) @ x) - np.eye(x.shape[1])).max()
             if not res <= tolc:
                 ctx.tie_broken('correspondence', 'contract:inv', 'G (A^H A) - I = %.3e' % res, case)
@@ -900,50 +1618,62 @@ def corr_chordal(ctx, g, drv, n_cases):
 def corr_whiten(ctx, g, drv, n_cases):
     _, _, misc, _ = _impl()
     cases, lines = [], []
+    inputs = []
     for t in range(n_cases):
         n = g.rng.randint(1, 8)
-        cplx = g.rng.chance(0.6)
-        c, kind = g.hpd(n, cplx, HPD_KINDS[t % len(HPD_KINDS)])
+        c, kind = g.hpd(n, g.rng.chance(0.6), HPD_KINDS[t % len(HPD_KINDS)])
+        inputs.append((c, kind, None, None))
+    for var, cplx, t in corr_variants(ctx, g, max(10, n_cases // 2)):
+        base = var_cov(g, g.rng.randint(1, 6), cplx, var, t)
+        inputs.append((realize(enc(base), var), 'variant', var, base))
+    inputs += [(np.array([[4.0]]), 'boundary', None, None), (np.eye(3) * 1e-13, 'boundary', None, None),
+               (np.eye(4) + 0j, 'boundary', None, None)]
+    ctx.branch('corr-R5:boundary', 3)
+    for (c, kind, var, base) in inputs:
+        n = c.shape[0]
+        cplx = np.iscomplexobj(c)
+        c64, rt9, rt12 = twin(c), rt(1e-9, c), rt(1e-12, c)
         with Tap() as tap:
             w = misc.calc_whitening_matrix(c)
         names = [x[0] for x in tap.log]
         if names != ['eig', 'qr']:
-            ctx.corr('calc_whitening_matrix.kernel-calls', {'C': enc(c)}, repr(names), "['eig', 'qr']")
+            ctx.corr('calc_whitening_matrix.kernel-calls', {'C': enc(c64)}, repr(names), "['eig', 'qr']")
             continue
         lam, v_eig = tap.log[0][3]
         ok_arg = np.array_equal(tap.log[0][1][0], c) and np.array_equal(tap.log[1][1][0], v_eig)
         v, rfac = tap.log[1][3]
         # contracts of the two kernel calls (hypotheses of eig_then_qr_contract)
-        sc = max(1.0, np.abs(c).max())
-        k1 = np.abs(c @ v_eig - v_eig * lam).max() / sc
-        k2 = np.abs(v @ rfac - v_eig).max()
-        k3 = np.abs(H(v) @ v - np.eye(n)).max()
+        sc = nz(np.abs(c64).max())
+        k1 = np.abs(c64 @ twin(v_eig) - twin(v_eig) * twin(lam)).max() / sc
+        k2 = np.abs(twin(v) @ twin(rfac) - twin(v_eig)).max()
+        k3 = np.abs(H(twin(v)) @ twin(v) - np.eye(n)).max()
         k4 = bool(np.all(np.tril(rfac, -1) == 0)) and bool(np.all(np.abs(np.diag(rfac)) > 1e-8))
-        k5 = np.abs(c - H(c)).max() / sc
-        if not (k1 <= 1e-9 and k2 <= 1e-9 and k3 <= 1e-9 and k4 and k5 <= 1e-12):
+        k5 = np.abs(c64 - H(c64)).max() / sc
+        if not (k1 <= rt9 and k2 <= rt9 and k3 <= rt9 and k4 and k5 <= rt12):
             ctx.tie_broken('correspondence', 'contract:eig/qr',
                            'CV-VL %.2e, QR-V %.2e, Q^HQ-I %.2e, R upper triangular invertible %s, C-C^H %.2e'
-                           % (k1, k2, k3, k4, k5), {'C': enc(c)})
-        cases.append((c, kind, w, lam, v, 'eig+qr', ok_arg))
+                           % (k1, k2, k3, k4, k5), {'C': enc(base if base is not None else c64), 'var': var})
+        cases.append((c, kind, w, lam, v, 'eig+qr', ok_arg, {'C': enc(base if base is not None else c64), 'var': var}))
         lines.append('whiten %d %s %s' % (n, cline(lam), cline(v)))
     out = drv.ask(lines)
-    for i, (c, kind, w, lam, v, kname, ok_arg) in enumerate(cases):
+    for i, (c, kind, w, lam, v, kname, ok_arg, case) in enumerate(cases):
         n = c.shape[0]
-        case = {'C': enc(c)}
+        c64, rt9, rt12 = twin(c), rt(1e-9, c), rt(1e-12, c)
+        lam, v = twin(lam), twin(v)
         key = ('whiten', n, kind, np.iscomplexobj(c), i)
         ctx.branch('whiten:' + kind)
         ctx.corr('calc_whitening_matrix.kernel-arguments', case, 'eig(cov_matrix),qr(V)' if ok_arg else 'other',
                  'eig(cov_matrix),qr(V)', key=key + ('arg',))
         mw = parse_c(out[i], (n, n))
-        ok, why = within(w, mw, np.abs(v) @ np.diag(1 / np.sqrt(np.abs(lam))), rtol=1e-12)
+        ok, why = within(w, mw, np.abs(v) @ np.diag(1 / np.sqrt(np.abs(lam))), rtol=rt12)
         ctx.corr('calc_whitening_matrix', case, 'agree' if ok else 'differs: ' + why, 'agree', key=key + ('W',))
         # contract assumed by whitening_identity: V unitary, C V = V diag(L), L real positive
-        sc = max(1.0, np.abs(c).max())
+        sc = nz(np.abs(c64).max())
         e1 = np.abs(H(v) @ v - np.eye(n)).max()
-        e2 = np.abs(c @ v - v * lam).max() / sc
+        e2 = np.abs(c64 @ v - v * lam).max() / sc
         e3 = float(np.max(np.abs(np.imag(lam)))) / sc
         pos = bool(np.all(np.real(lam) > 0))
-        if not (e1 <= 1e-9 and e2 <= 1e-9 and e3 <= 1e-12 and pos):
+        if not (e1 <= rt9 and e2 <= rt9 and e3 <= rt12 and pos):
             ctx.tie_broken('correspondence', 'contract:' + kname,
                            'V^HV-I %.2e, CV-VL %.2e, imag(L) %.2e, positive %s' % (e1, e2, e3, pos), case)
 
@@ -951,20 +1681,41 @@ def corr_whiten(ctx, g, drv, n_cases):
 def corr_uisd(ctx, g, drv, n_cases):
     _, _, misc, _ = _impl()
     cases, lines = [], []
+    inputs = []
     for t in range(n_cases):
         a, d = gen_uisd_case(g, short=(t % 5 == 4))
-        n = a.shape[0]
+        # a real inverse with a complex diagonal is passed as it is (every 2nd time) or as complex
+        inputs.append((a, d, np.linalg.inv(a).astype(complex if (np.iscomplexobj(d) and t % 2) else a.dtype), None))
+    for var, cplx, t in corr_variants(ctx, g, max(10, n_cases // 2)):
+        a, d = var_uisd(g, var)
+        sc = (var or {}).get('scale')
+        if sc is not None:
+            a, d = a * sc, d * sc
         inv_a = np.linalg.inv(a)
-        if np.iscomplexobj(d) and not np.iscomplexobj(inv_a):
-            inv_a = inv_a.astype(complex)
+        dt = (var or {}).get('dtype')
+        if dt == 'f32':
+            inv_a = inv_a.astype(np.complex64 if np.iscomplexobj(inv_a) else np.float32)
+            d = d.astype(np.complex64 if np.iscomplexobj(d) else np.float32)
+        elif dt in INT_DTYPES:
+            inv_a, d = np.rint(inv_a).astype('int16' if dt == 'uint8' else dt), np.rint(d).astype(dt)
+        lay = (var or {}).get('layout')
+        inputs.append((a, relayout(d, lay), relayout(inv_a, lay), var))
+    h4 = g.hpd(4, True, 'wishart')[0]
+    inputs += [(h4, np.zeros(4), np.linalg.inv(h4), None), (h4, np.zeros(0), np.linalg.inv(h4), None),
+               (np.array([[2.0]]), np.array([1.0]), np.array([[0.5]]), None),
+               (np.eye(3), np.array([1.0, 2.0, 3.0]), np.eye(3, dtype=int), None),
+               (np.eye(2), np.array([1j, 2.0]), np.eye(2), None)]
+    ctx.branch('corr-R5:boundary', 5)
+    for (a, d, inv_a, var) in inputs:
+        n = a.shape[0]
         with Tap() as tap:
             out = misc.update_inv_sum_diag(inv_a, d)
-        cases.append((a, d, inv_a, out, len(tap.log)))
+        cases.append((a, d, inv_a, out, len(tap.log), var))
         lines.append('uisd %d %s %s' % (n, cline(inv_a), cline(d)))
     res = drv.ask(lines)
-    for i, (a, d, inv_a, out, ncalls) in enumerate(cases):
+    for i, (a, d, inv_a, out, ncalls, var) in enumerate(cases):
         n = a.shape[0]
-        case = {'A': enc(a), 'd': enc(d)}
+        case = {'A': enc(a), 'd': enc(twin(d)), 'var': var}
         key = ('uisd', n, d.size, np.iscomplexobj(a), i)
         ctx.branch('uisd:full-diagonal' if d.size == n else 'uisd:short-diagonal')
         m_s, p_s = res[i].split('|')
@@ -973,8 +1724,10 @@ def corr_uisd(ctx, g, drv, n_cases):
             continue
         mo = parse_c(m_s, (n, n))
         piv = parse_c(p_s, (d.size,)) if d.size else np.zeros(0)
-        scale = max(1.0, float(np.abs(inv_a).max()), float(np.abs(out).max())) * max(1.0, float(np.max(1 / np.abs(piv))) if d.size else 1.0)
-        ok, why = within(out, mo, scale * np.ones((n, n)), rtol=1e-9)
+        scale = nz(max(float(np.abs(inv_a).max()), float(np.abs(out).max()))) * max(1.0, float(np.max(1 / np.abs(piv))) if d.size else 1.0)
+        ok, why = within(out, mo, scale * np.ones((n, n)), rtol=rt(1e-9, inv_a, d))
+        if np.asarray(out).dtype.kind not in 'fc':
+            ctx.corr('update_inv_sum_diag.result-dtype', case, str(np.asarray(out).dtype), 'floating', key=key + ('dt',))
         ctx.corr('update_inv_sum_diag', case, 'agree' if ok else 'differs: ' + why, 'agree', key=key)
         if d.size and not np.all(np.abs(piv) > 1e-6):
             ctx.tie_broken('correspondence', 'contract:pivot', 'pivot near zero %r' % piv.tolist(), case)
@@ -985,8 +1738,19 @@ def corr_uisd(ctx, g, drv, n_cases):
 def corr_select(ctx, g, drv, n_cases):
     _, _, misc, _ = _impl()
     cases, lines = [], []
-    for _ in range(n_cases):
-        a = gen_herm(g)
+    inputs = [(gen_herm(g), None) for _ in range(n_cases)]
+    for var, cplx, t in corr_variants(ctx, g, max(10, n_cases // 2)):
+        for _ in range(100):
+            n_ = g.rng.randint(1, 6)
+            x = g.rs.randint(-3, 4, size=(n_, n_)).astype(float)
+            if cplx and not (var and var.get('dtype') in INT_DTYPES):
+                x = x + 1j * g.rs.randint(-3, 4, size=(n_, n_))
+            hm = np.abs(x + H(x)) if (var and var.get('dtype') == 'uint8') else x + H(x)
+            w = np.linalg.eigvalsh(hm)
+            if n_ < 2 or np.min(np.diff(w)) >= 1e-2 * max(1.0, np.abs(w).max()):
+                break
+        inputs.append((realize(enc(hm), var), var))
+    for (a, var) in inputs:
         ncols = a.shape[1]
         which = ['peig', 'leig'][len(cases) % 2]
         n = g.rng.randint(0, ncols) if len(cases) % 6 != 5 else ncols + g.rng.randint(1, 2)
@@ -997,13 +1761,13 @@ def corr_select(ctx, g, drv, n_cases):
                 err = None
             except Exception as e:
                 r, err = None, type(e).__name__
-        cases.append((a, which, n, r, err, tap))
+        cases.append((a, which, n, r, err, tap, var))
         perm = tap.calls('argsort')[0][3].tolist() if tap.calls('argsort') else list(range(ncols))
         lines.append('%s %d %d %s' % (which, ncols, n, ','.join(map(str, perm)) if perm else '-'))
     out = drv.ask(lines)
-    for i, (a, which, n, r, err, tap) in enumerate(cases):
+    for i, (a, which, n, r, err, tap, var) in enumerate(cases):
         ncols = a.shape[1]
-        case = {'A': enc(a), 'n': n, 'which': which}
+        case = {'A': enc(twin(a)), 'n': n, 'which': which, 'var': dict(var, scale=None) if var else None}
         key = (which, ncols, n, i)
         if err is not None:
             ctx.branch('select:error')
@@ -1030,31 +1794,35 @@ def corr_select(ctx, g, drv, n_cases):
         srt = dvals.real[perm]
         if sorted(perm) != list(range(ncols)) or np.any(np.diff(srt) < 0):
             ctx.tie_broken('correspondence', 'contract:argsort', 'perm %r values %r' % (perm, srt.tolist()), case)
-        res = np.abs(a @ vmat - vmat * dvals).max() / max(1.0, np.abs(a).max())
-        if not res <= 1e-9:
+        res = np.abs(twin(a) @ twin(vmat) - twin(vmat) * twin(dvals)).max() / nz(np.abs(twin(a)).max())
+        if not res <= rt(1e-9, a):
             ctx.tie_broken('correspondence', 'contract:eig', 'A V - V D = %.3e' % res, case)
 
 
 def corr_lrsv(ctx, g, drv, n_cases):
     _, _, misc, _ = _impl()
     cases, lines = [], []
-    for _ in range(n_cases):
-        a = gen_rect(g)
+    inputs = [(gen_rect(g), None) for _ in range(n_cases)]
+    for var, cplx, t in corr_variants(ctx, g, max(10, n_cases // 2)):
+        inputs.append((realize(enc(var_rect(g, var, cplx)), var), var))
+    inputs += [(np.array([[3.0]]), None), (g.raw(1, 5, True), None), (g.raw(5, 1, False), None)]
+    ctx.branch('corr-R5:boundary', 3)
+    for ii, (a, var) in enumerate(inputs):
         m, c = a.shape
-        n = g.rng.randint(0, c)
+        n = g.rng.randint(0, c) if ii % 7 else [0, c][ii % 2]
         with Tap() as tap:
             try:
                 r = misc.least_right_singular_vectors(a, n)
                 err = None
             except Exception as e:
                 r, err = None, type(e).__name__
-        cases.append((a, n, r, err, tap))
+        cases.append((a, n, r, err, tap, var))
         s = tap.calls('svd')[0][3][1] if tap.calls('svd') else np.zeros(0)
         lines.append('lrsv %d %d %s' % (c, n, fline(s)))
     out = drv.ask(lines)
-    for i, (a, n, r, err, tap) in enumerate(cases):
+    for i, (a, n, r, err, tap, var) in enumerate(cases):
         m, c = a.shape
-        case = {'A': enc(a), 'n': n}
+        case = {'A': enc(twin(a)), 'n': n, 'var': dict(var, scale=None) if var else None}
         key = ('lrsv', m, c, n, i)
         ctx.branch('lrsv:wide' if m < c else 'lrsv:tall-or-square')
         names = [x[0] for x in tap.log]
@@ -1077,22 +1845,26 @@ def corr_lrsv(ctx, g, drv, n_cases):
               and np.array_equal(np.asarray(s1), parse_f(s_s)))
         ctx.corr('least_right_singular_vectors', case, 'V[:,idx0],V[:,idx1],S[idx1]' if ok else 'differs',
                  'V[:,idx0],V[:,idx1],S[idx1]', key=key)
-        u, s, vh = tap.log[0][3]
+        u, s, vh = [twin(x) for x in tap.log[0][3]]
         sig = np.zeros((m, c))
         sig[:s.size, :s.size] = np.diag(s)
-        e = np.abs(u @ sig @ vh - a).max() / max(1.0, np.abs(a).max())
+        e = np.abs(u @ sig @ vh - twin(a)).max() / nz(np.abs(twin(a)).max())
         e2 = max(np.abs(H(u) @ u - np.eye(m)).max(), np.abs(vh @ H(vh) - np.eye(c)).max())
-        if not (e <= 1e-9 and e2 <= 1e-9 and np.all(s >= 0) and np.all(np.diff(s) <= 0)):
+        if not (e <= rt(1e-9, a) and e2 <= rt(1e-9, a) and np.all(s >= 0) and np.all(np.diff(s) <= 0)):
             ctx.tie_broken('correspondence', 'contract:svd', 'U S V^H - A = %.2e, unitarity %.2e' % (e, e2), case)
 
 
 def corr_gpcm(ctx, g, drv, n_cases):
     _, _, misc, _ = _impl()
     cases, lines = [], []
-    for _ in range(n_cases):
-        a = gen_rect(g)
+    inputs = [(gen_rect(g), None) for _ in range(n_cases)]
+    for var, cplx, t in corr_variants(ctx, g, max(10, n_cases // 2)):
+        inputs.append((realize(enc(var_rect(g, var, cplx)), var), var))
+    inputs += [(np.array([[3.0]]), None), (g.raw(1, 5, True), None), (g.raw(5, 1, False), None)]
+    ctx.branch('corr-R5:boundary', 3)
+    for ii, (a, var) in enumerate(inputs):
         m, c = a.shape
-        k = g.rng.randint(1, min(m, c))
+        k = g.rng.randint(1, min(m, c)) if ii % 5 else min(m, c)
         with Tap() as tap:
             try:
                 r = misc.get_principal_component_matrix(a, k)
@@ -1101,15 +1873,15 @@ def corr_gpcm(ctx, g, drv, n_cases):
                 r, err = None, type(e).__name__
         names = [x[0] for x in tap.log]
         if names != ['svd']:
-            ctx.corr('get_principal_component_matrix.kernel-calls', {'A': enc(a)}, repr(names), "['svd']")
+            ctx.corr('get_principal_component_matrix.kernel-calls', {'A': enc(twin(a))}, repr(names), "['svd']")
             continue
         u, s, vh = tap.log[0][3]
-        cases.append((a, k, r, err, tap))
+        cases.append((a, k, r, err, tap, var))
         lines.append('gpcm %d %d %d %s %s %s' % (m, c, k, cline(u), cline(s), cline(vh)))
     out = drv.ask(lines)
-    for i, (a, k, r, err, tap) in enumerate(cases):
+    for i, (a, k, r, err, tap, var) in enumerate(cases):
         m, c = a.shape
-        case = {'A': enc(a), 'k': k}
+        case = {'A': enc(twin(a)), 'k': k, 'var': dict(var, scale=None) if var else None}
         key = ('gpcm', m, c, k, i)
         ctx.branch('gpcm:wide' if m < c else 'gpcm:tall-or-square')
         u, s, vh = tap.log[0][3]
@@ -1119,21 +1891,36 @@ def corr_gpcm(ctx, g, drv, n_cases):
             continue
         mo = parse_c(out[i], (m, k))
         bound = (np.abs(u[:, :s.size]) * s) @ np.abs(vh[:s.size, :k])
-        ok, why = within(r, mo, bound + 1e-300)
+        ok, why = within(r, mo, bound + 1e-300, rtol=rt(1e-9, a))
+        if np.asarray(r).dtype.kind not in 'fc':
+            ok, why = False, 'integer result dtype %s' % np.asarray(r).dtype
         ctx.corr('get_principal_component_matrix', case, 'agree' if ok else 'differs: ' + why, 'agree', key=key)
 
 
 def corr_gmd(ctx, g, drv, n_cases):
     _, _, misc, _ = _impl()
     cases, lines = [], []
-    for t in range(n_cases):
-        if t % 7 == 6:      # repeated singular values (no rotation branch)
+    variants = corr_variants(ctx, g, max(10, n_cases // 2))
+    bnd = [np.array([[3.0]]), g.raw(1, 5, True), g.raw(5, 1, False)]
+    ctx.branch('corr-R5:boundary', 3)
+    for t in range(n_cases + len(variants) + len(bnd)):
+        var = None
+        if t >= n_cases + len(variants):
+            a = bnd[t - n_cases - len(variants)]
+        elif t >= n_cases:
+            var, cplx, _ = variants[t - n_cases]
+            a = var_rect(g, var, cplx) * ((var or {}).get('scale') or 1.0)
+        elif t % 7 == 6:      # repeated singular values (no rotation branch)
             n = g.rng.randint(1, 6)
             a = g.unitary(n, g.rng.chance(0.5)) * float(g.rng.randint(1, 4))
         else:
             a = gen_rect(g)
         m, n = a.shape
         u, sv, vh = np.linalg.svd(a)
+        if var and var.get('dtype') == 'f32':
+            u = u.astype(np.complex64 if np.iscomplexobj(u) else np.float32)
+            vh = vh.astype(np.complex64 if np.iscomplexobj(vh) else np.float32)
+        u, vh = relayout(u, (var or {}).get('layout')), relayout(vh, (var or {}).get('layout'))
         tol = 0.0
         if t % 6 == 5 and sv.size < 2:
             a = g.raw(3, 2, True)
@@ -1164,10 +1951,11 @@ def corr_gmd(ctx, g, drv, n_cases):
             # still checks the decomposition itself)
             ctx.branch('gmd:ill-conditioned-rotation-skipped')
             continue
-        scale = max(1.0, float(sv[0]), float(sv[0] / sv[pcount - 1])) / margin
-        ok1, w1 = within(q, parse_c(q_s, (m, m)), scale * np.ones((m, m)), rtol=1e-11)
-        ok2, w2 = within(r, parse_c(r_s, (m, n)), scale * np.ones((m, n)), rtol=1e-11)
-        ok3, w3 = within(pm, parse_c(p_s, (n, n)), scale * np.ones((n, n)), rtol=1e-11)
+        scale = max(1.0, float(sv[0] / sv[pcount - 1])) / margin     # relative: Q, P are O(1), R is O(s1)
+        r11 = rt(1e-11, u, vh)
+        ok1, w1 = within(q, parse_c(q_s, (m, m)), scale * np.ones((m, m)), rtol=r11)
+        ok2, w2 = within(r, parse_c(r_s, (m, n)), scale * float(sv[0]) * np.ones((m, n)), rtol=r11)
+        ok3, w3 = within(pm, parse_c(p_s, (n, n)), scale * np.ones((n, n)), rtol=r11)
         ok = ok1 and ok2 and ok3
         ctx.corr('gmd', case, 'agree' if ok else 'differs: Q %s R %s P %s' % (w1, w2, w3), 'agree', key=key)
         if ncalls:
@@ -1200,6 +1988,28 @@ def corr_conversion(ctx, g, drv, n_cases):
             ctx.corr(nm, {'x': x, 'y': y, 'bits': b}, 'agree' if ok else 'differs: impl %r model %r' % (float(v), mv),
                      'agree', key=(nm, i))
     ctx.branch('conversion', len(xs))
+    # R1 / R5: the same values as Python and numpy scalars of every width (integer valued, in range)
+    lines, items = [], []
+    for ty in SCALAR_TYPES:
+        for x, y, b in ((1, 0, 1), (50, 30, 4), (g.rng.randint(2, 60), g.rng.randint(-30, 30), g.rng.randint(1, 10))):
+            xs_, ys_, bs_ = mk_scalar(x, ty), mk_scalar(y, ty), mk_scalar(b, ty)
+            x, y, b = float(xs_), float(ys_), float(bs_)
+            items.append((ty, x, y, b, [conv.linear2dB(xs_), conv.dB2Linear(ys_), conv.linear2dBm(xs_),
+                                        conv.dBm2Linear(ys_), conv.SNR_dB_to_EbN0_dB(float(y), bs_),
+                                        conv.EbN0_dB_to_SNR_dB(float(y), bs_)]))
+            lines += ['lin2db %s' % core.f2s(x), 'db2lin %s' % core.f2s(y), 'lin2dbm %s' % core.f2s(x),
+                      'dbm2lin %s' % core.f2s(y), 'snr2ebn0 %s %s' % (core.f2s(y), core.f2s(b)),
+                      'ebn02snr %s %s' % (core.f2s(y), core.f2s(b))]
+        ctx.branch('corr-R1:scalar-' + ty)
+    out = drv.ask(lines)
+    names = ['linear2dB', 'dB2Linear', 'linear2dBm', 'dBm2Linear', 'SNR_dB_to_EbN0_dB', 'EbN0_dB_to_SNR_dB']
+    for i, (ty, x, y, b, impl) in enumerate(items):
+        for j, (nm, v) in enumerate(zip(names, impl)):
+            mv = core.s2f(out[6 * i + j])
+            ok = np.asarray(v).dtype.kind == 'f' and core.close(float(v), mv, rtol=type_rtol(ty))
+            ctx.corr(nm + '.scalar-type', {'x': x, 'y': y, 'bits': b, 'type': ty},
+                     'agree' if ok else 'differs: impl %r (%s) model %r' % (float(v), np.asarray(v).dtype, mv), 'agree',
+                     key=(nm, 'type', ty, i))
 
 
 def correspondence(ctx, scale):
@@ -1302,6 +2112,11 @@ def oracles(ctx, scale):
                                        'bits': rng.randint(1, 10)})
 
 
+def r_class_oracles(ctx, scale):
+    variant_oracles(ctx, 30 * scale)
+    boundary_oracles(ctx)
+
+
 def exhaustive_shapes(ctx):
     """thorough tier: every shape of the quantifier's range once per field"""
     g = Gen(ctx.rng.fork('shapes'))
@@ -1354,6 +2169,13 @@ def check(ctx):
                              'uisd:full-diagonal', 'uisd:short-diagonal', 'select:peig', 'select:leig',
                              'select:error', 'lrsv:wide', 'lrsv:tall-or-square', 'gpcm:wide',
                              'gpcm:tall-or-square', 'gmd:p=len(S)', 'gmd:p<len(S)', 'conversion']
+    for side in ('corr-', 'oracle-'):
+        ctx.required_branches += [side + b for b in (
+            'R1:float32/complex64', 'R1:integer-dtype', 'R1:scalar-int8', 'R1:scalar-uint8', 'R1:scalar-int16',
+            'R1:scalar-pyint', 'R1:scalar-float32', 'R2:layout-F', 'R2:layout-T', 'R2:layout-rev',
+            'R2:layout-strided', 'R5:boundary', 'R6:scale-tiny', 'R6:scale-huge')]
+    ctx.required_branches += ['oracle-R2:array-shape-', 'oracle-R2:array-shape-0', 'oracle-R2:array-shape-2x1x3',
+                              'oracle-R3:independence', 'oracle-R4:rejected-calls', 'oracle-R7:object-history']
     try:
         correspondence(ctx, scale)
     except core.Infra as e:
@@ -1362,6 +2184,7 @@ def check(ctx):
         ctx.notes.append('correspondence skipped: %s' % e)
         ctx.required_branches = []
     oracles(ctx, scale)
+    r_class_oracles(ctx, scale if quick else max(1, scale // 5))
     if not quick:
         exhaustive_shapes(ctx)
 
